@@ -12,1060 +12,2508 @@ Definition show_fres (r : fres) : string :=
   end.
 Definition check (rs : list rune) : string := digest (show_fres (format_res rs)).
 Definition full (rs : list rune) : string := show_fres (format_res rs).
-Eval vm_compute in ("<<<M1551>>>" ++ check (runes_of_ascii "// top
-options // c0a
-  // c0b
-{ // c1
-LittleEndian
-    // c2
-=
-    // c3
-false // c4a
-  // c4b
-; // c5a
-  // c5b
-StringPrefixLenType
-    // c6
-= u8
-    // c8
-; // c9a
-  // c9b
-ArrayPrefixLenType
-    // c10
-= // c11a
-  // c11b
-u8 ; // c13a
-  // c13b
-FixedStringPadFromLeft // c14a
-  // c14b
-= // c15a
-  // c15b
-true ;
-    // c17
-FixedStringPadChar // c18a
-  // c18b
-=
-    // c19
-' ' ;
-    // c21
-} // c22a
-  // c22b
-packet
-    // c23
-Trade
-    // c24
-{ // c25a
-  // c25b
-zchar[ 2
-    // c27
-] Side2 // c29a
-  // c29b
-, i8 // c31
-seqNo ,
-    // c33
-} // c34
-packet
-    // c35
-Party // c36
-{ // c37
-uint32 // c38
-price ,
-    // c40
-}
-    // c41
-packet
-    // c42
-Ack { // c44
-@rightPad // c45a
-  // c45b
-(
-    // c46
-'\x00'
-    // c47
-) // c48
-char[ // c49
-6
-    // c50
-]
-    // c51
-x // c52a
-  // c52b
-, // c53
-repeat
-    // c54
-char[ // c55
-4 ] Flags // c58a
-  // c58b
-, // c59a
-  // c59b
-zchar[
-    // c60
-9 // c61
-] // c62
-f1 // c63
-,
-    // c64
-} packet
-    // c66
-Cancel // c67a
-  // c67b
-{ Ack
-    // c69
-, // c70
-} packet // c72a
-  // c72b
-Heartbeat // c73a
-  // c73b
-{ string
-    // c75
-Px // c76
-, string // c78
-Acct
-    // c79
-, f64 // c81
-Side2 , InQty24 // c84a
-  // c84b
-{ // c85
-i16 seqNo , repeat
-    // c89
-i32 // c90a
-  // c90b
-Flags
-    // c91
-, // c92
-} , // c94
-}
-    // c95
-root
-    // c96
-packet // c97
-Logon // c98a
-  // c98b
-{ // c99a
-  // c99b
-Trade // c100a
-  // c100b
-,
-    // c101
-i64 venue // c103a
-  // c103b
-,
-    // c104
-u32
-    // c105
-x // c106a
-  // c106b
-,
-    // c107
-u8 seqNo , // c110a
-  // c110b
-match // c111a
-  // c111b
-seqNo // c112
-as // c113a
-  // c113b
-Body // c114
+Eval vm_compute in ("<<<M3567>>>" ++ check (runes_of_ascii "
+
+  options
+
+    { }
+options
 {
-    // c115
-[ // c116
-1 // c117
-,
-    // c118
-164 // c119
-]
-    // c120
-: Ack , 31 : // c125a
-  // c125b
-Cancel // c126a
-  // c126b
-, // c127a
-  // c127b
-23 : Heartbeat
-    // c130
-,
-    // c131
-64 // c132a
-  // c132b
-: Party // c134
-,
-    // c135
-}
-    // c136
-, }
-    // c138
-")).
-Eval vm_compute in ("<<<M1558>>>" ++ check (runes_of_ascii "// top
-options // c0a
-  // c0b
-{ // c1
-LittleEndian // c2a
-  // c2b
-= // c3
-false // c4a
-  // c4b
-; // c5
-ArrayPrefixLenType // c6
-= // c7
-u8 ; // c9
-FixedStringPadChar // c10a
-  // c10b
-=
-    // c11
-'0' // c12
-;
-    // c13
-}
-    // c14
-packet Order // c16a
-  // c16b
-{ // c17
-InNote94 // c18a
-  // c18b
-{ f32 f1 // c21
-, f64 // c23a
-  // c23b
-Side2 ,
-    // c25
-repeat InTail47 { // c28a
-  // c28b
-char[]
-    // c29
-seqNo // c30a
-  // c30b
-,
-    // c31
-char[] // c32a
-  // c32b
-Tail , // c34a
-  // c34b
-char[] // c35
-lastPx , // c37a
-  // c37b
-}
-    // c38
-, // c39a
-  // c39b
-} , // c41a
-  // c41b
-zchar[
-    // c42
-7
-    // c43
-]
-    // c44
-f1
-    // c45
-, u8 // c47a
-  // c47b
-Side2
-    // c48
-, // c49a
-  // c49b
-} // c50
-root packet // c52a
-  // c52b
-Reject
-    // c53
-{ repeat // c55a
-  // c55b
-char[ // c56
-4 // c57
-] // c58
-Flags , // c60a
-  // c60b
-InPrice63 // c61
-{ InSeqno41 // c63
-{ // c64a
-  // c64b
-repeat
-    // c65
-i8 OrderId // c67a
-  // c67b
-, // c68a
-  // c68b
-repeat // c69
-i32
-    // c70
-clOrdID // c71
-, // c72
-char[ // c73
-9
-    // c74
-]
-    // c75
-tag7
-    // c76
-, // c77a
-  // c77b
-char[] // c78a
-  // c78b
-lastPx // c79a
-  // c79b
-,
-    // c80
-} // c81
-, // c82
-Order
-    // c83
-, uint8 Side2 , // c87a
-  // c87b
-}
-    // c88
-, // c89a
-  // c89b
-} ")).
-Eval vm_compute in ("<<<M358>>>" ++ check (runes_of_ascii "packet	matchKey { } packet rootA {} root packet lengthOf { // trailing space 
-@tag(
-0 //x
-)uint16 repeatCount
-    , //x
-uint32 rootA @calculatedFrom(""it's""
-// packet A { u8 x, }
-// `tick` ""quote"" 'q'
-)
-,
-//	t
-// a // b
-string uint8x /// triple
-,  u128@calculatedFrom(
-""" ++ [28040; 24687]%N ++ runes_of_ascii """ ) ,@leftPad
-( '\x00' ) u  `a\` , @leftPad( ' ' ) @calculatedFrom(
-""1"" ) @lengthOf( int )match msg_type
-// " ++ [128512]%N ++ runes_of_ascii " emoji
-// a // b
-as Pad{
-""abc""// " ++ [27880; 37322]%N ++ runes_of_ascii "
-: asx }
-    , options1 {
-    char[]  metadata // trailing space 
-, Logon@lengthOf( zchar ) , repeatCount {
-zchar[255 ] tag
-    ,x_y_z msg_type,// `tick` ""quote"" 'q'
-pack, MetaDataX @lengthOf(  falsey )
-    , }
-, zchar  @lengthOf( Header  )
-,  } ,@tag( 42 ) char[
-    007 ] i64_
-,
-// trailing space 
-//	t
-@lengthOf( As
-) match crc  as/// triple
-MetaDataX {65535 :leftPad
-""a\""b"" : BodyLength , 42:	crc
-    ,
-    // " ++ [27880; 37322]%N ++ runes_of_ascii "
-    0123456789: body , ""abc""
-:	stringy
-,	""CRC32"":
-    x_y_z,} ,
-    //
-    int32 Header @lengthOf(
-// @lengthOf(
-//
-asx // " ++ [27880; 37322]%N ++ runes_of_ascii "
-) , } packet packetx
-{	}root packet
-float//	t
-{ @tag( 1 ) @lengthOf(
-_x) @leftPad ( '0'
-    )
-repeat // c
-i64_ ,}
-")).
-Eval vm_compute in ("<<<M196>>>" ++ check (runes_of_ascii "/// triple
-MetaData roots
-    { string
-Z9_ `say ""hi""`
-    //
-    ,o
-    tag ,char[4294967296 // " ++ [128512]%N ++ runes_of_ascii " emoji
-] body `crlf
-line`
-,
-    _x lengthOf `tab	here` , } options { repeatCount	= ""x y"" ; T = """ ++ [28040; 24687]%N ++ runes_of_ascii """ }
-    /// triple
-    packet int{ @calculatedFrom( ""CRC32"" )int64 f32a, roots @calculatedFrom( ""it's"" )`` ,@calculatedFrom(""a\\"" )@tag( 007 ) char[ 255//	t
-] crc @lengthOf(packetx )
-    ,
+
+    o
+=uint64 	 // " ++ [128512]%N ++ runes_of_ascii " emoji
+    u	= u8 ;  charz =
+	00// c
+  }packet 	 //	t
+  BodyLength 
+{
 match
-    Pad as string_ { [""\" ++ [233]%N ++ runes_of_ascii """,3
+u // a // b
+
+	as uint8x {
+
+    65535	:// 50% %s
+  MetaDataX // " ++ [27880; 37322]%N ++ runes_of_ascii "
+	, [
+    ""CRC32"" ,0// a // b
+	,
+    65535
+    ,
+""CRC32"" , ""\n"" ] 
+:
+	Foo	,
+
+[
+65535  , """ ++ [233]%N ++ runes_of_ascii "t" ++ [233]%N ++ runes_of_ascii """, 
+""// no comment""  
+      // c
+, 0123456789  ,  """ ++ [28040; 24687]%N ++ runes_of_ascii """
+
+    ,
+
+0	, 
+""a	b""// " ++ [128512]%N ++ runes_of_ascii " emoji
+    ,
+0123456789
+] :Logon,	[
+""{,}""
+,  // trailing space 
+  1 ]  :a1
+    ,	[	""" ++ [128512]%N ++ runes_of_ascii """
+	]	// a // b
+  	:
+	int  , 65535: 
+	    // packet A { u8 x, }
+i8i8
+
+    ,  }
+
+,
+
+    repeat 
+Packet
+
+i8i8
+`// not a comment` 	 // " ++ [128512]%N ++ runes_of_ascii " emoji
+  ,repeat A
+    A `doc` ,
+char[ 65535
+	]	roots
+
+@calculatedFrom( 
+""packet"" )  , repeat
+int32 trueish
+
+, // trailing space 
+      Z9_ body  `
+` 
     // " ++ [27880; 37322]%N ++ runes_of_ascii "
-    ] : lengthOf  ,[ 42
-    ]:
-// packet A { u8 x, }
-// packet A { u8 x, }
-body ,
-7 : i8i8
-    ,0123456789:
-options1
-,//x
-[ 00 ] : Z9_ ,  }// @lengthOf(
-,float
-,// " ++ [27880; 37322]%N ++ runes_of_ascii "
-} MetaData zchar
-    {
-    zchar[
-3 ]
-    options1
-    `line1
-line2` ,}  packet asx
-{ zchar[
-    42// " ++ [128512]%N ++ runes_of_ascii " emoji
+	,
+
+    @rightPad	(
+'0'
+	// " ++ [27880; 37322]%N ++ runes_of_ascii "
+    // trailing space 
+)	i8i8 ,
+} 
+packet
+
+Pad
+	{
+@rightPad  
+  // packet A { u8 x, }
+	  // @lengthOf(
+
+  ( '\x00')
+match  i8i8 as
+
+    Foo
+
+{
+    //x
+
+//	t
+	0123456789	:
+	As
+, ""\" ++ [233]%N ++ runes_of_ascii """ :i64_
+3 
+
+// 50% %s
+	// a // b
+  :len
+
+    42
+    :f32a , // packet A { u8 x, }
+		[
+	1  ,  """ ++ [233]%N ++ runes_of_ascii "t" ++ [233]%N ++ runes_of_ascii """
+,""a\""b"" ,
+
+    42 , 007
+
+    ,
+4294967296	,
+	    // @lengthOf(
+
+  7 ] :
+o  ,
+[007 
+,
+    10  ] 
+    // " ++ [27880; 37322]%N ++ runes_of_ascii "
+    	:
+u8x
+,
+
+    },
+	match
+
+_x
+
+as	u128
+{
+
+7
+	:  stringy	,
+    1
+: packetx	,  ""1"" :	charz
+	, 42
+:
+MetaDataX ,
+""\" ++ [233]%N ++ runes_of_ascii """:
+
+    _x
+    ,
+
+[  3 ,
+""`tick`""
+
+]:
+	BodyLength }
+
+,  @tag(
+    007
+	)
+	@tag(	1)
+    @tag( 
+10 )
+
+u16 packetx
+
+    `u8 x,`  ,	@rightPad	('0'
+
+) u128
+{  Foo
+{
+repeat Foo msg_type
+,repeat	char[  7]
+i64_ , u
+
+@calculatedFrom(
+""\" ++ [233]%N ++ runes_of_ascii """ )
+    ,
+}
+    ,
+zchar[
+3
+
 ]
-falsey ,	@calculatedFrom(
-""1""
-)
-repeat string As `" ++ [233]%N ++ runes_of_ascii "`, char[] trueish
-    , int32 Header , repeat  stringy
-`crlf
-line`, string
-x_y_z,
-f64 T
-//x
+	// @lengthOf(
+	Foo  `" ++ [233]%N ++ runes_of_ascii "` ,u128
+
+// " ++ [128512]%N ++ runes_of_ascii " emoji
+, }  
+      //	t
+
 // `tick` ""quote"" 'q'
-, uint8x
-@lengthOf( charz
-)
-    `a\` , }")).
-Eval vm_compute in ("<<<M1587>>>" ++ check (runes_of_ascii "  packet
-	Packet {  @tag(	65535)
+  ,char[
+	10]	// packet A { u8 x, }
+	body  //
+,
+	}packet 
+_x
+{
+@lengthOf(
+
+    trueish )
 
     @leftPad
-
     (
+'0')
+	int32
+	As	// a // b
+,
+options1
+    { repeat//
 
-    ' '  )@tag(
+int{
 
-255
-    /// triple
-  ) uint8  len @lengthOf( 
-T
+uint16 u// " ++ [128512]%N ++ runes_of_ascii " emoji
+	,
+zchar
 
-)
+`a\`,
 
-    ,
-int32 u8x ,@lengthOf( rootA) float32
+    char[]
+	trueish  ,
+	} , 
 
-    i64_
-    `u8 x,`  ,} packet  // c
-  int
-	{
-	repeat i8i8
-    {  lengthOf
+    //x
+  // @lengthOf(
+  }
 
-@lengthOf(
-int
+    , 
+	    //
+      //	t
+int ,@tag(
+65535
+
+    ) char[] roots  ,
+    } ")).
+Eval vm_compute in ("<<<M4349>>>" ++ check (runes_of_ascii "  //
+  MetaData	u8x { f64  //x
+	Z9_  `` 
+, char[
+
+    3 ]  _x ,
+
+u8x  matchKey ,
+    char[
+	1
+	] int
+
+// `tick` ""quote"" 'q'
+    // packet A { u8 x, }
+	`tab	here` ,
+	i32
+matchKey
+`` , msg_type Logon ,
+
+    } root  packet
+charz	{ zchar { repeat
+
+    MetaDataX	// `tick` ""quote"" 'q'
+	  { char[ 10
+]
+
+Pad	@calculatedFrom(""packet"" 
 ) 
-`line1
-line2`,  string falsey`
-` ,
+,
+    zchar[ 
+0123456789	]
+    o  @lengthOf(
+	rootA )
+,	zchar[	0
 
-    uint16 
-    // `tick` ""quote"" 'q'
-// trailing space 
-    roots	@lengthOf(charz)
+]
+    u128
+
+,
+u32  uint8x @calculatedFrom( 
+""{,}"" ) ,
+
+} ,match 
+zchar as  trueish
+    {""packet""  :
+	string_
     ,
+    [
+00
+    , 
+	    // packet A { u8 x, }
+
+// " ++ [27880; 37322]%N ++ runes_of_ascii "
+    	""1""
+    ]
+:
+repeatCount ,
+    ""\n""  :
+
+tag ,
+
+""1""
+:
+
+matchKey
+    ,  },
+	}
+
+,match
+string_ 
+as
+
+    BodyLength { 
+""" ++ [233]%N ++ runes_of_ascii "t" ++ [233]%N ++ runes_of_ascii """ :
+
+A
+	,
+[
+0 
+, 1  ,  """ ++ [128512]%N ++ runes_of_ascii """
+    ,""`tick`""
+]:	uint8x
+
+    ,""" ++ [28040; 24687]%N ++ runes_of_ascii """ 
+:
+
+string_
+
+    ,}
+
+    // " ++ [128512]%N ++ runes_of_ascii " emoji
+  , 	 /// triple
+    	@lengthOf(
+i64_
+
+    ) i8 stringy@calculatedFrom( // 50% %s
+    	""1"") ,zchar[
+    0  ]	charz 
+,  @lengthOf(  matchKey 
+) repeat
+
+    As
+	leftPad ,
+@calculatedFrom(
+
+    ""\" ++ [233]%N ++ runes_of_ascii """
+	)	match
+	Header	as
+
+    i64_  { 
+7	: 
+stringy
+, 
+""// no comment""	:
+
+    _x
+,	// " ++ [27880; 37322]%N ++ runes_of_ascii "
+	0  : options1
+,
+    [""// no comment""  ,
+	""packet""  ,
+""x y""
+
+    , ""a\""b""
+
+,""""
+    ,
+00	,
+    00 , 
+7  ]: 
+As
+,[ 007 
+]
+	:
+
+    zchar 
+    // a // b
+  //
+  ,
+    }	//
+,	// " ++ [27880; 37322]%N ++ runes_of_ascii "
+} packet
+    metadata  //
+    {
+
+    match  string_  // a // b
+	as 
+x	{ 
+	// 50% %s
+  //
+  ""1""  :
+    tag [ ""1""]	//x
+
+:
+metadata	,
 
     } ,
-	} options
+	zchar[
+255]
+// a // b
+matchKey , @calculatedFrom( ""a	b"" 	 // @lengthOf(
 
-{Foo=  ' '
-    len
-= """ ++ [128512]%N ++ runes_of_ascii """ 
-; 
-chars
-=
+	)
     u64
-; 
-	//x
-//
-  uint8x // a // b
+	As // " ++ [27880; 37322]%N ++ runes_of_ascii "
+		,
+@rightPad
 
-=
+(
 
-""" ++ [128512]%N ++ runes_of_ascii """
-    // trailing space 
+    '0'
+)  // a // b
+	@lengthOf(metadata)
 
-	;
-metadata
-    = ' '
+    @rightPad
+('\x00'
 
-;
-    }
-        // " ++ [27880; 37322]%N ++ runes_of_ascii "
-	MetaData  Header 
-	    // " ++ [27880; 37322]%N ++ runes_of_ascii "
-	{
+)
+char[] T
+	@calculatedFrom( 	 //x
+  """ ++ [128512]%N ++ runes_of_ascii """
+	) `line1
+line2` ,
 
-    i16 
-matchKey
-	,  Packet
+    f32  options1 @lengthOf( MetaDataX  ) ,}  // trailing space 
+ 
+")).
+Eval vm_compute in ("<<<M3549>>>" ++ check (runes_of_ascii "
 
-    Packet `u8 x,`
+  packet stringy { repeat  f32a
+
+o `" ++ [28040; 24687; 31867; 22411]%N ++ runes_of_ascii "`
 ,
-    }packet
+@lengthOf( 
+f32a
+) /// triple
+  char[
 
-    u128  {	uint8x 
-@lengthOf(	charz  ) 
-`u8 x,` ,
+    42  ]uint8x
+    , 
+@tag(	42 	 // trailing space 
 
+)
+float
+@lengthOf(
+MetaDataX),
+string
+T ,  match
+	_x as  leftPad
+	{	0123456789
+	: stringy,} ,
+    @leftPad ( ) repeat uint8x { string_{
+	char[
+255
+]a1  @calculatedFrom( 
+// " ++ [27880; 37322]%N ++ runes_of_ascii "
+		""abc""
+) ,metadata 
+@lengthOf( asx	)// packet A { u8 x, }
+    , 
+} 
+
+//	t
+  // " ++ [27880; 37322]%N ++ runes_of_ascii "
+
+	,  repeat
+	falsey
+, Logon	{ As , 
+repeat 
+char[]
+    u	,	} 
+,
+    }	, @leftPad  ( ' ' // a // b
+	) char[ 10
+]
+	charz @lengthOf(
+	float )
+
+    // 50% %s
+  	,@calculatedFrom( """ ++ [233]%N ++ runes_of_ascii "t" ++ [233]%N ++ runes_of_ascii """
+
+) i64 trueish
+`" ++ [28040; 24687; 31867; 22411]%N ++ runes_of_ascii "` // `tick` ""quote"" 'q'
+	,
+}
+options
+    // c
+  // a // b
+
+{
+options1
+=  7
+    ;
+u  =
+
+"""" ;
+
+    }root packet Packet{
+
+    char
+
+    As
+
+`` 
+,
+repeat
+    leftPad 	 //x
+	{	match
+x_y_z  as
+x_y_z
+    { ""abc"" : 
+f32a  [1 
+
+//x
+,42 ]:rootA
+    , 7 : pack 
+,
+
+    ""abc"" :
+_x""1"" :asx
+	,
+
+""packet""  :
+int 	 // trailing space 
+  }	, }	// a // b
+,  @calculatedFrom( ""\n""
+)
+repeat	f64	u8x  , @lengthOf( 
+zchar  ) 
+o
+	,pack@lengthOf(
+falsey	)
+	`two words`
+
+    ,
+
+zchar[
+
+    1 ]  asx
+
+    @lengthOf(uint8x )  , @calculatedFrom(
+	""\n"" 
+
+    // c
+	  // 50% %s
+)
+char[ 42 
+]  // a // b
+	u
+@calculatedFrom( ""packet"" 
+), match	// " ++ [27880; 37322]%N ++ runes_of_ascii "
+    rootA as
+    i8i8  {
+
+    00
+    // `tick` ""quote"" 'q'
+    // packet A { u8 x, }
+
+:	A,
+0
+
+:
+
+    o
+0123456789 : len
+
+    ,
+
+65535
+	: zchar
+}, }
+    //
+")).
+Eval vm_compute in ("<<<M14>>>" ++ check (runes_of_ascii "packet
+x_y_z{ @calculatedFrom( // `tick` ""quote"" 'q'
+""" ++ [128512]%N ++ runes_of_ascii """ ) uint16 a1 , string
+    crc //
+, char[0123456789 ]charz
+`doc`
+    //x
+    ,//x
+match As	as packetx { ""a\""b"":
+MetaDataX , ""{,}""  : f32a
+,42 : metadata // " ++ [27880; 37322]%N ++ runes_of_ascii "
+[""1"" , 7 ]:
+chars ,  } , }  MetaData
+T
+    { //x
+uint8 f32a`
+`
+    , string MetaDataX, char[ // 50% %s
+0123456789 // @lengthOf(
+]MetaDataX `tab	here`
+    , } packet //
+uint8x	{ }	packet
+    matchKey{ @tag( 00 // c
+) @tag(
+    255
+    // `tick` ""quote"" 'q'
+    ) @calculatedFrom(
+    //	t
+    ""a	b""
+    )body @calculatedFrom( ""`tick`"" ) , // trailing space 
+@lengthOf( matchKey ) match i8i8
+as msg_type  { 00: float
+, ""{,}"" :T	} ,@rightPad
+    ( '\x00') f64 trueish,  @lengthOf(
+chars )repeat string	A ,match Z9_ // trailing space 
+as /// triple
+metadata {	[ 42
+    , ""packet""]	: charz
+7 : body// 50% %s
+7 :	Z9_ , } ,	zchar[ 00 ]  float
+`
+` , @lengthOf(
+    leftPad
+    // c
+    ) repeat x_y_z
+    metadata ,// 50% %s
+@calculatedFrom( ""a\\"")
+@calculatedFrom(
+    """ ++ [28040; 24687]%N ++ runes_of_ascii """ )match MetaDataX as Pad { ""// no comment"": pack , }, @tag(007
+)
+    /// triple
+    crc { // @lengthOf(
+Z9_ {
+u128 { repeat repeatCount trueish ,As `crlf
+line` ,repeat
+    char[ 0123456789
+    // " ++ [128512]%N ++ runes_of_ascii " emoji
+    ]uint8x ,
+string
+repeatCount,
+    } , repeat int16 i64_ , repeat
+f32a Packet ``
+,
+    }, }	,
     }
 ")).
-Eval vm_compute in ("<<<M1983>>>" ++ check (runes_of_ascii "// trailing space 
-packet tag {
-    @rightPad('0')
-    u128,
-    @lengthOf(MetaDataX)
-    // c
-    leftPad,// packet A { u8 x, }
-    @tag(1)
-    calculatedFrom @lengthOf(Logon),
+Eval vm_compute in ("<<<M3669>>>" ++ check (runes_of_ascii "
+options { 
+u // packet A { u8 x, }
+		=  // 50% %s
+	  int32 
+packetx
+
+= ""`tick`"" ;
+matchKey=  // trailing space 
+      '0' As
+=
+3
+    // packet A { u8 x, }
+	//x
+  ;
+
+    Packet
+
+    = true
+    ;
+} root  packet
+tag
+
+{	// @lengthOf(
+  u64
+
+stringy,
+repeat
+options1  {zchar[ 
+4294967296 
+]
+    f32a ``
+    ,match tag 
+as 
+    //
+	options1
+
+{
+
+10
+	: 
+A 
+
+// c
+// c
+,007 
+:Pad ,
+
+0123456789:  calculatedFrom	7
+    :
+
+stringy, [// 50% %s
+  ""a\""b"" , // " ++ [27880; 37322]%N ++ runes_of_ascii "
+
+0123456789] : options1
+
+,
+3 
+:u8x , 
+	// packet A { u8 x, }
+  }, }
+    ,
+	}  packet	len{
+@calculatedFrom( 
+    // packet A { u8 x, }
+// `tick` ""quote"" 'q'
+    	""" ++ [233]%N ++ runes_of_ascii "t" ++ [233]%N ++ runes_of_ascii """ ) i8 
+    // `tick` ""quote"" 'q'
+    //	t
+    repeatCount @lengthOf( 
+	    // `tick` ""quote"" 'q'
+		// " ++ [128512]%N ++ runes_of_ascii " emoji
+    	roots ) , int32  i64_//
+  @calculatedFrom(
+""`tick`""),
+@rightPad(' ' 
+)
+repeat
+	char[]u8x // " ++ [128512]%N ++ runes_of_ascii " emoji
+		,
+@rightPad ( '\x00'  )	leftPad { 
+match
+
+lengthOf// c
+	as
+
+charz {
+""1""
+
+    :	tag ""// no comment""
+: x
+
+,
+	[ """ ++ [233]%N ++ runes_of_ascii "t" ++ [233]%N ++ runes_of_ascii """ ,
+
+""CRC32""]
+:
+pack
+
+    3 :
+
+charz ,
+
+}
+    ,} ,  } options{}
+	MetaData matchKey
+
+{ uint64	repeatCount ,
+roots
+    x_y_z	`say ""hi""` 
+,  roots
+    As ,  A
+
+    crc	,
+	uint64 f32a	// @lengthOf(
+      ,  }
+")).
+Eval vm_compute in ("<<<M492>>>" ++ check (runes_of_ascii "MetaData options1
+{
+// @lengthOf(
+// c
+}// " ++ [128512]%N ++ runes_of_ascii " emoji
+packet
+    As{
+    repeat //
+calculatedFrom // trailing space 
+i8i8
+    `" ++ [233]%N ++ runes_of_ascii "`
+, @calculatedFrom("""" )@tag( 3// " ++ [27880; 37322]%N ++ runes_of_ascii "
+) // c
+@lengthOf( calculatedFrom )// " ++ [27880; 37322]%N ++ runes_of_ascii "
+repeat len falsey `a\`,
+    //
+    stringy{ uint16
+options1
+,
+    } ,	@lengthOf( asx ) repeat Z9_{ repeat o{ repeat uint8x
+    , repeat	falsey { match x //
+as charz // trailing space 
+{ ""it's""
+/// triple
+// " ++ [27880; 37322]%N ++ runes_of_ascii "
+: A """ ++ [233]%N ++ runes_of_ascii "t" ++ [233]%N ++ runes_of_ascii """ : int, [ 255
+,""CRC32"" , ""1""
+,007 , 4294967296
+/// triple
+// packet A { u8 x, }
+,
+42// c
+]
+    : float
+    ""packet"" :Logon , 3
+: string_ , } ,
+    string zchar ,  }
+, } ,	A
+trueish ,
+    } , char[	65535 ]Pad
+, @rightPad
+    ( /// triple
+'0'
+) @lengthOf(msg_type )
+@rightPad(
+    '0' ) match lengthOf as float { //	t
+255/// triple
+:asx [1 , ""{,}""  ,
+""""
+]
+: leftPad
+    , [0123456789 ,
+""a\""b"" //	t
+]
+    :  x_y_z
+1:	MetaDataX
+    , [42 , 0123456789 ] : lengthOf ,}	, }  options { Packet	= ""a\""b"" ;  }packet // " ++ [128512]%N ++ runes_of_ascii " emoji
+BodyLength { int64 x_y_z
+@lengthOf( crc) ,
+@leftPad( )
+    BodyLength falsey, @calculatedFrom( ""// no comment"") @lengthOf(u ) //
+repeat
+    float64 A
+, }")).
+Eval vm_compute in ("<<<M759>>>" ++ check (runes_of_ascii "packet chars {char[]
+msg_type@calculatedFrom( ""a\\"" ) //
+,
+repeat //	t
+uint32
+    chars `" ++ [233]%N ++ runes_of_ascii "` , repeat u8 float , @tag( 00)
+repeat zchar[ 0
+] int , }packet float {	@rightPad ( '0' )o
+tag `two words` ,
+}
+    packet//	t
+crc { match f32a as
+f32a {
+0123456789 :
+crc[
+    00]
+:// packet A { u8 x, }
+len // `tick` ""quote"" 'q'
+,[
+""CRC32"" , ""CRC32""	,
+// " ++ [128512]%N ++ runes_of_ascii " emoji
+//x
+""// no comment"",""a\\""	, 00 , ""packet""
+    ] :BodyLength, 65535
+:
+    calculatedFrom /// triple
+}, uint64
+stringy// 50% %s
+@lengthOf(
+metadata //	t
+) , repeat Header options1
+, repeat u64
+Header, @tag( 3
+    ) Z9_ `say ""hi""`  ,@tag( // packet A { u8 x, }
+007
+) f32a  { char[ 00// a // b
+] i64_
+, repeat options1 {repeat
+    float64 charz,
+    }
+,
+match len as pack {
+    // @lengthOf(
+    ""x y"" :
+stringy """ ++ [233]%N ++ runes_of_ascii "t" ++ [233]%N ++ runes_of_ascii """
+// a // b
+//x
+: tag , } ,
+    } ,	@rightPad (	) repeat// `tick` ""quote"" 'q'
+i64 Z9_ ,
+    } MetaData packetx /// triple
+{
+    int8 u8x ,
+As crc
+,
+u64 int `tab	here` , char[
+0123456789 ] T , }//x
+MetaData
+    Header{
+    MetaDataX
+int ,int8
+    string_
+,pack  Pad , }")).
+Eval vm_compute in ("<<<M440>>>" ++ check (runes_of_ascii "
+packet uint8x { match stringy as
+lengthOf
+{ 00 : roots,
+    } ,match zchar as body {
+""// no comment"": // packet A { u8 x, }
+MetaDataX [""`tick`"" ,
+""\n""] : i8i8 , ""// no comment"" :
+    float
+""x y"" : body
+, } ,
+@tag( 00 )
+    f32a@calculatedFrom( ""CRC32"") ,  uint32
+i8i8
+    ,
+@rightPad( ' ' ) zchar[4294967296]
+rootA ,} packet // c
+metadata { // a // b
+T  {
+    u8x {match
+    As as trueish
+    { // packet A { u8 x, }
+[
+    ""\" ++ [233]%N ++ runes_of_ascii """ ] : Header // " ++ [128512]%N ++ runes_of_ascii " emoji
+, },
+repeat stringy //
+options1 , repeat u8x{
+float32
+int @lengthOf( BodyLength) `line1
+line2`
+    // `tick` ""quote"" 'q'
+    , }
+,
+string f32a // " ++ [128512]%N ++ runes_of_ascii " emoji
+,  }
+    , match
+    calculatedFrom as tag {00: pack }, msg_type { repeat int64 len `it's` , repeat uint64 rootA `" ++ [28040; 24687; 31867; 22411]%N ++ runes_of_ascii "` , //x
+} ,
+match rootA as
+_x { [ """ ++ [28040; 24687]%N ++ runes_of_ascii """ , ""{,}""] : metadata	} // " ++ [27880; 37322]%N ++ runes_of_ascii "
+, }, @leftPad ( )	u
+    @lengthOf( Header
+    )
+    , u16 // trailing space 
+x
+`a\`, match
+    string_ as Foo{42 : string_
+, // trailing space 
+00
+    :	T,} , } // c
+packet
+options1  { }")).
+Eval vm_compute in ("<<<M1057>>>" ++ check (runes_of_ascii "  root packet falsey{ zchar[
+    1 ] MetaDataX
+    // " ++ [128512]%N ++ runes_of_ascii " emoji
+    ,match // packet A { u8 x, }
+len as A { [""it's"" ] : chars """"
+    : f32a,}
+    , rootA
+{ repeat
+packetx
+{ f64
+    Header`" ++ [28040; 24687; 31867; 22411]%N ++ runes_of_ascii "` , }
+    ,
+repeat char[
+    42 //
+] As, Foo@lengthOf(
+    asx)
+`line1
+line2` ,
+    len {  msg_type { float32
+BodyLength
+@lengthOf( u
+    /// triple
+    ) // packet A { u8 x, }
+`line1
+line2`
+,repeat u8
+u128`
+`,
+}
+    , stringy {  i8 float @calculatedFrom( //	t
+""`tick`"" ) , } , u64  Logon, char[ //x
+00]
+    chars // a // b
+@lengthOf( T // a // b
+)
+`two words`
+    , } ,} , char[]
+    falsey , @calculatedFrom( """ ++ [233]%N ++ runes_of_ascii "t" ++ [233]%N ++ runes_of_ascii """
+)
+zchar[10 ] Pad
+@calculatedFrom( ""a\\"" ), repeat char[ 42
+    ] zchar
+,
+@tag( 0	) repeat u128 Header ,
+@leftPad ( '\x00' ) BodyLength @calculatedFrom( ""{,}""
+) `it's`, char[] leftPad
+, match body as repeatCount{ // " ++ [128512]%N ++ runes_of_ascii " emoji
+[ ""\" ++ [233]%N ++ runes_of_ascii """ ,
+    //x
+    00 ]  :
+    Pad 4294967296	:
+u8x,
+// `tick` ""quote"" 'q'
+//x
+} ,  } 	 ")).
+Eval vm_compute in ("<<<M311>>>" ++ check (runes_of_ascii "options {crc = 42 a1 =""\" ++ [233]%N ++ runes_of_ascii """ ;}
+    packet x_y_z
+// c
+// c
+{ int32
+    // `tick` ""quote"" 'q'
+    u
+@calculatedFrom( """" ),
+trueish
+{ match zchar as i8i8{ 0123456789 : int ,	[ ""`tick`"",""{,}""
+// packet A { u8 x, }
+// c
+, """ ++ [28040; 24687]%N ++ runes_of_ascii """ ,""// no comment"",	0 , 65535 ,
+3 ] :u8x// " ++ [128512]%N ++ runes_of_ascii " emoji
+,
+0123456789 :calculatedFrom
+, }  ,repeat string trueish ,matchKey// " ++ [128512]%N ++ runes_of_ascii " emoji
+{ repeat
+charz/// triple
+,
+    metadata	@calculatedFrom( ""it's"" )
+`two words` ,} ,  } ,
+    // " ++ [128512]%N ++ runes_of_ascii " emoji
+    repeat string Pad  , @calculatedFrom( ""a\\""
+) @calculatedFrom( """ ++ [128512]%N ++ runes_of_ascii """ )
+    repeat rootA
+    {f32 Logon `100% of %d`
+// `tick` ""quote"" 'q'
+// `tick` ""quote"" 'q'
+,zchar[
+    4294967296 ]
+    len
+@calculatedFrom(
+//x
+// 50% %s
+""// no comment"" ) ,
+}
+    ,  } packet Packet { msg_type
+, // packet A { u8 x, }
+trueish // c
+{ roots @calculatedFrom( ""a\\"" ) ,
+} // " ++ [128512]%N ++ runes_of_ascii " emoji
+,
+// a // b
+// trailing space 
+repeat zchar ,
+    u16 i8i8 , }
+")).
+Eval vm_compute in ("<<<M4442>>>" ++ check (runes_of_ascii "packet 
+body
+    {@tag( 42)
+char[
+	4294967296
+]  chars
+
+    @calculatedFrom(
+
+    ""{,}"")`doc`  // " ++ [27880; 37322]%N ++ runes_of_ascii "
+  ,repeat string
+
+lengthOf
+	,@tag( 3 /// triple
+
+	)
+
+    string float @lengthOf(
+o	)
+,
+
+u32
+
+pack
+`100% of %d`
+	,	stringy
+@lengthOf(
+    repeatCount )`say ""hi""`,  float32
+
+crc`two words` ,  } packet
+	zchar{ @tag(
+    0
+)
+@tag(
+	1 	 // a // b
+)
+@lengthOf( 
+    // `tick` ""quote"" 'q'
+Z9_ 
+)
+u32
+
+    Logon
+@calculatedFrom(""x y"" 
+) 
+,
+    @tag(  //	t
+  1
+	)
+
+string
+	packetx @lengthOf( u8x
+    //	t
+	// `tick` ""quote"" 'q'
+  ), zchar[ 10]
+uint8x 
+/// triple
+  	`// not a comment` ,repeat  // a // b
+	stringy
+{
+i16
+Z9_ `// not a comment`
+,	repeat zchar[
+
+    4294967296 ]
+
+    u , 
+zchar
+
+    @calculatedFrom(
+	""{,}"" 
+)`a\`
+,
+
+}
+,	rootA	u128 
+, }	packet
+
+asx{
+repeat i64_ ,@lengthOf( 
+msg_type
+
+) repeat  Z9_
+rootA ,
+	} ")).
+Eval vm_compute in ("<<<M4211>>>" ++ check (runes_of_ascii "packet Pad {
+    repeat uint8x {
+        char[] Z9_,
+    },
+    repeat zchar[10] i8i8,
+    x,
+    repeat string_ {
+        // @lengthOf(
+        repeat asx Foo,
+        int16 i8i8,
+        char[] matchKey,
+        match calculatedFrom as roots {
+            3 : x_y_z,
+        },
+    },
+    @lengthOf(x)
+    repeat o `a\`,
+    char[] string_ `{ , }`,
 }
 
-packet string_ {
+options {
+    f32a = false
+    A = false
 }
 
 packet u128 {
-    char[0] chars `say ""hi""`,
-    int,
-    @leftPad('0')
-    T {
-        repeat zchar[255] int,
-        zchar stringy,
+    @calculatedFrom(""" ++ [128512]%N ++ runes_of_ascii """)
+    string a1,
+    @tag(00)
+    char[10] A `" ++ [233]%N ++ runes_of_ascii "`,
+    char[65535] len,
+    @tag(00)
+    @rightPad('\x00')
+    @calculatedFrom(""1"")
+    zchar[7] body,
+    @calculatedFrom(""{,}"")
+    i64_ {
+        repeat uint8x tag `u8 x,`,
     },
-    repeat zchar {
-        match leftPad as packetx {
-            [""`tick`""] : lengthOf,
-            [7, """ ++ [128512]%N ++ runes_of_ascii """, 00, ""x y"", ""packet""] : stringy,
-            [42, ""\n"", ""it's"", 65535, 1] : msg_type,
-            ""packet"" : a1,
-        },
-        u16 int,
-        repeat x_y_z float,
-        repeat u64 A `a\`,
+    string_ A,
+    @calculatedFrom(""x y"")
+    @tag(42)
+    i16 pack,
+    @rightPad()
+    A {
+        Z9_,
     },
+    tag BodyLength,
 }")).
-Eval vm_compute in ("<<<M2047>>>" ++ check (runes_of_ascii "  // top
-options
-// c0
-	{  charz  // c2
-	=  // c3a
-// c3b
-  	f64 	 // c4a
-    // c4b
-    ;	// c5a
-	// c5b
-  	metadata =	// c7
-	  7 	 // c8a
-    	// c8b
-		; // c9a
-    // c9b
-    }  // c10
-  	options
-// c11
-  { 
-
-    // c12
-      u128 	 // c13
-= 
-
-    // c14
-
-  10 	 // c15
-    options1  // c16
-=  // c17
-    true 
-	// c18
-	;
-    zchar	// c20
-	=
-
-    // c21
-    uint16
-// c22
-	; 
-lengthOf 
-
-    // c24
-	= 
-      // c25
-	true 
-    // c26
-
-; 
-
-    // c27
-	}	// c28a
-	// c28b
-	options  // c29
-	{
-        // c30
-    len
-
-    =	// c32
-		1
-
-// c33
-  }
-// c34")).
-Eval vm_compute in ("<<<M2123>>>" ++ check (runes_of_ascii "options {
-    falsey = ""abc"";
-    roots = '0';
-    MetaDataX = '0';//
-    crc = 42// a // b
-    x = '0';
+Eval vm_compute in ("<<<M3703>>>" ++ check (runes_of_ascii "packet asx {
+    float32 repeatCount @lengthOf(asx) `say ""hi""`,
+    //x
+    @calculatedFrom(""packet"")
+    @lengthOf(x)
+    repeat f32a,
+    //x
+    // " ++ [128512]%N ++ runes_of_ascii " emoji
+    @lengthOf(calculatedFrom)
+    @tag(65535)
+    a1 len,
 }
 
-packet A {
-    repeat uint64 u128,
-    @tag(65535)
-    int16 options1 `line1
+MetaData chars {
+    zchar[1] stringy,
+    zchar[4294967296] stringy `" ++ [233]%N ++ runes_of_ascii "`,
+}
+
+// 50% %s
+// @lengthOf(
+packet asx {
+    repeat uint64 o,
+    repeat int8 matchKey `a\`,
+    @lengthOf(matchKey)
+    repeat metadata {
+        repeat options1 {
+            x rootA,
+            A @lengthOf(repeatCount),// a // b
+            pack,
+        },
+    },
+    @tag(4294967296)
+    repeat int64 matchKey `crlf
+        line`,
+    @tag(1)
+    repeat zchar[65535] _x `line1
+        line2`,
+    @leftPad('\x00')
+    @tag(255)
+    @tag(0)
+    zchar[255] trueish,
+}")).
+Eval vm_compute in ("<<<M4061>>>" ++ check (runes_of_ascii "packet T {
+    //
+    @leftPad('0')
+    charz `line1
         line2`,
 }
 
-options {
-    // packet A { u8 x, }
-    int = ""// no comment""
-    msg_type = zchar[0123456789];
-    calculatedFrom = u8;
-    asx = """ ++ [28040; 24687]%N ++ runes_of_ascii """;
-    body = 10
+packet options1 {
+}// c
+
+root packet leftPad {
+    @tag(7)
+    repeat string falsey,
+    @tag(00)
+    char[] uint8x,
+    @rightPad()
+    match i64_ as _x {
+        1 : falsey,
+    },
+    char[0123456789] Z9_,
+    @lengthOf(tag)
+    repeat int,
+    char[10] o,
+    uint64 msg_type @calculatedFrom(""1"") `{ , }`,
+    char[] stringy @calculatedFrom(""it's""),// " ++ [27880; 37322]%N ++ runes_of_ascii "
+    uint8 tag,// a // b
+    u32 crc @calculatedFrom(""a\\""),
 }
 
+MetaData A {
+    x_y_z string_ `u8 x,`,
+}
+
+packet roots {
+    Pad {
+        float32 lengthOf `
+                `,
+        repeat f64 MetaDataX,
+        char[65535] u `
+                `,
+    },
+    repeat char[] i64_,
+    int32 charz @lengthOf(A),
+}")).
+Eval vm_compute in ("<<<M4216>>>" ++ check (runes_of_ascii "packet chars {
+    repeat crc int,
+    falsey string_ `say ""hi""`,
+    @leftPad()
+    repeat trueish `" ++ [28040; 24687; 31867; 22411]%N ++ runes_of_ascii "`,
+    @calculatedFrom(""1"")
+    // a // b
+    repeatCount,
+    string chars @lengthOf(calculatedFrom),
+}
+
+root packet uint8x {
+    u64 rootA `{ , }`,
+    string_,
+    char[] matchKey,
+    char[255] _x @calculatedFrom(""1""),
+    rootA @calculatedFrom(""a	b"") `line1
+        line2`,
+    @lengthOf(int)
+    MetaDataX @lengthOf(msg_type),
+    char[] lengthOf @calculatedFrom(""a\""b"") `a\`,
+    int64 A `" ++ [28040; 24687; 31867; 22411]%N ++ runes_of_ascii "`,
+    Logon {
+        char[7] calculatedFrom,
+        leftPad,
+        _x @calculatedFrom(""" ++ [128512]%N ++ runes_of_ascii """),
+        repeatCount matchKey,
+    },
+    @lengthOf(Logon)
+    zchar[0] len `a\`,
+}// packet A { u8 x, }")).
+Eval vm_compute in ("<<<M1188>>>" ++ check (runes_of_ascii "packet f32a {
+    }	packet lengthOf { } packet asx {@calculatedFrom( """"
+    )
+    @calculatedFrom( ""\" ++ [233]%N ++ runes_of_ascii """) @calculatedFrom( // 50% %s
+""x y"" ) repeat lengthOf , repeat uint64	_x
+// 50% %s
+// 50% %s
+`a\`
+    , trueish { float32 u  ,repeat string_ rootA `100% of %d` ,/// triple
+} , i64_ ,match chars
+as
+    As {[
+    """ ++ [128512]%N ++ runes_of_ascii """
+,""a	b"" ] :
+u8x
+    , ""abc"" :T
+    00	:
+// " ++ [27880; 37322]%N ++ runes_of_ascii "
+// @lengthOf(
+chars , ""a\""b""// c
+: //x
+len	,
+    0 : Pad ,	} // `tick` ""quote"" 'q'
+, match charz as leftPad {
+""\" ++ [233]%N ++ runes_of_ascii """: T , 007: tag , 007 :	crc
+    ,
+/// triple
+// packet A { u8 x, }
+007: a1  , 1:
+    asx
+, }	,
+repeat
+    uint16 o ,
+} root	packet x_y_z
+{  }root packet asx { stringy //	t
+,
+    // a // b
+    }
+")).
+Eval vm_compute in ("<<<M584>>>" ++ check (runes_of_ascii "MetaData i64_
+{string _x ,
+    // " ++ [27880; 37322]%N ++ runes_of_ascii "
+    char[] Packet ,
+}
+root
+packet Foo {@lengthOf( u8x) @calculatedFrom(
+""" ++ [233]%N ++ runes_of_ascii "t" ++ [233]%N ++ runes_of_ascii """ )@rightPad ( '\x00' // `tick` ""quote"" 'q'
+) As //x
+u `` ,
+    }
+// packet A { u8 x, }
+// " ++ [128512]%N ++ runes_of_ascii " emoji
+packet leftPad { @calculatedFrom( ""a\\"")@lengthOf(
+len)
+@tag( 1
+) char[ 255 ]u8x, @calculatedFrom(
+""// no comment"" )
+int32
+    // trailing space 
+    len
+    @lengthOf( _x ) ,
+    @calculatedFrom( """ ++ [28040; 24687]%N ++ runes_of_ascii """ ) repeat Logon int `{ , }`
+, match As as packetx { ""a	b"" :
+uint8x, } ,char[
+0
+    ]charz @lengthOf( i8i8 ) ,	chars
+metadata,
+    @tag( 0123456789
+    )BodyLength,  } root
+packet // 50% %s
+zchar
+    {
+@leftPad( '\x00')float
+    T , }
+")).
+Eval vm_compute in ("<<<M1287>>>" ++ check (runes_of_ascii "packet T  {  @rightPad
+// `tick` ""quote"" 'q'
+//
+() match
+    o
+    as
+asx {[1
+    ]	:
+zchar
+    }
+, T	{
+char[] calculatedFrom // @lengthOf(
+`" ++ [28040; 24687; 31867; 22411]%N ++ runes_of_ascii "`, Pad	BodyLength , // 50% %s
+char[  255] body `100% of %d` , u,} , //
+MetaDataX
+    // `tick` ""quote"" 'q'
+    @calculatedFrom( ""CRC32"" ) ,
+}
+packet As
+    // " ++ [128512]%N ++ runes_of_ascii " emoji
+    { string
+o,//
+repeat
+i32
+    // @lengthOf(
+    msg_type`line1
+line2`,repeat zchar[
+    3
+] Header `line1
+line2` ,	f32a, u32 u
+`say ""hi""`  ,  @leftPad (	'0' ) repeat
+tag matchKey , @tag(
+    1) repeat f32a
+    `
+` //
+,
+    //x
+    @lengthOf(	Header )
+Z9_ ,int8 i64_ @calculatedFrom(
+    //	t
+    ""1"" ), } //	t")).
+Eval vm_compute in ("<<<M4359>>>" ++ check (runes_of_ascii "packet Foo {
+    BodyLength body `" ++ [28040; 24687; 31867; 22411]%N ++ runes_of_ascii "`,
+    match calculatedFrom as _x {
+        42 : zchar,
+    },
+    leftPad @calculatedFrom(""a	b"") `two words`,
+    zchar[3] lengthOf,
+    repeat float64 Pad,
+    repeat tag {
+        char[] lengthOf `// not a comment`,
+        Foo {
+            uint8x roots,
+            u8x @calculatedFrom(""`tick`"") `100% of %d`,
+            repeat Packet {
+                zchar[0] As @calculatedFrom(""" ++ [128512]%N ++ runes_of_ascii """),
+            },
+            roots @calculatedFrom(""x y""),
+        },
+    },
+    _x @calculatedFrom(""`tick`"") `{ , }`,// packet A { u8 x, }
+    @rightPad(' ')
+    uint64 x_y_z,
+}")).
+Eval vm_compute in ("<<<M1091>>>" ++ check (runes_of_ascii "packet asx{ @calculatedFrom( ""CRC32"" ) u32  matchKey ,
+repeat string body
+, } MetaData  roots
+    {	_x matchKey
+, lengthOf i8i8`doc`  ,i16 pack , uint8
+    i64_ ,zchar[7]
+i8i8
+, i64_ //
+body `
+` , }
+    packet
+    u8x{ @lengthOf(
+msg_type ) uint8x  @calculatedFrom( ""a\""b"" ) // @lengthOf(
+`line1
+line2` ,char[
+    10 ] calculatedFrom ,@tag( 3 ) @lengthOf( packetx ) @calculatedFrom(
+    ""it's"" )  zchar[
+00 ]
+T @lengthOf( crc )
+    ,
+match f32a as Logon {""abc""
+: BodyLength
+, [ 0
+, 42
+] :	Header 007 : Z9_""a\""b"" :
+    chars
+,
+// packet A { u8 x, }
+//
+}
+// trailing space 
+//x
+,}")).
+Eval vm_compute in ("<<<M3328>>>" ++ check (runes_of_ascii "// top
+packet
+    // c0
+A
+    // c1
+{ // c2
+match packetx
+    // c4
+as BodyLength {
+    // c7
+007 : // c9
+A // c10
+""" ++ [28040; 24687]%N ++ runes_of_ascii """ // c11
+: x_y_z
+    // c13
+, """ ++ [128512]%N ++ runes_of_ascii """ // c15
+:
+    // c16
+crc
+    // c17
+[ // c18
+""{,}"" // c19
+, ""\n"" // c21a
+  // c21b
+, // c22a
+  // c22b
+""" ++ [233]%N ++ runes_of_ascii "t" ++ [233]%N ++ runes_of_ascii """
+    // c23
+, // c24
+""x y"" // c25a
+  // c25b
+, ""a\""b"" ] // c28a
+  // c28b
+: // c29a
+  // c29b
+stringy
+    // c30
+, // c31a
+  // c31b
+} // c32a
+  // c32b
+, // c33a
+  // c33b
+} // c34a
+  // c34b
+root
+    // c35
+packet i64_ // c37
+{ // c38
+repeat // c39
+pack
+    // c40
+`100% of %d` , // c42a
+  // c42b
+} ")).
+Eval vm_compute in ("<<<M4181>>>" ++ check (runes_of_ascii "packet Pad {
+}
+
+packet packetx {
+    //x
+    repeatCount,// packet A { u8 x, }
+    @leftPad('\x00')
+    tag @lengthOf(u128),
+    MetaDataX @calculatedFrom(""\" ++ [233]%N ++ runes_of_ascii """) `tab	here`,// a // b
+    uint16 body @calculatedFrom(""abc"") `say ""hi""`,// trailing space 
+}
+
+packet x {
+    u16 a1 `crlf
+    line`,
+}
+
+root packet Z9_ {
+    @calculatedFrom(""CRC32"")
+    repeat string pack `say ""hi""`,
+    repeat zchar[3] charz,//	t
+    i16 f32a @calculatedFrom(""{,}""),
+}
+
+packet len {
+    @lengthOf(crc)
+    zchar[00] f32a @calculatedFrom(""it's""),// " ++ [128512]%N ++ runes_of_ascii " emoji
+}")).
+Eval vm_compute in ("<<<M937>>>" ++ check (runes_of_ascii "packet Z9_ { // 50% %s
+repeat leftPad,} packet x
+{
+    roots { uint16// 50% %s
+stringy ,match Packet
+as _x {
+""x y"": matchKey , 255 : rootA , 7 :Foo ,""\n"" :	options1
+, } ,  repeat
+roots
+    { match
+int  as a1// trailing space 
+{ 1
+: asx """ ++ [28040; 24687]%N ++ runes_of_ascii """ :// `tick` ""quote"" 'q'
+i8i8 ,
+[ 0
+, 1]:
+    //
+    charz } ,
+    // trailing space 
+    } ,
+    x_y_z``
+,}
+, } options // @lengthOf(
+{ uint8x
+    =
+'\x00' ;zchar  =' ' ; o = ""\n""	a1  =
+    zchar[0123456789 ] ; } root packet
+Z9_ { int16 Pad  @lengthOf( Header ) ``, }
+")).
+Eval vm_compute in ("<<<M124>>>" ++ check (runes_of_ascii "packet int {
+@leftPad(
+    //x
+    '\x00'
+    ) @tag( 0
+    //
+    ) repeat char[ 1 ] Header ,@calculatedFrom( ""CRC32"" )
+@tag( // a // b
+65535 )
+    lengthOf
+    , match T as x// 50% %s
+{ 3 : float
+,[65535
+, ""x y"" ]: Pad, }
+, int32 f32a
+`a\` ,}// a // b
+packet zchar
+{ options1 ,
+@calculatedFrom( ""\" ++ [233]%N ++ runes_of_ascii """)	repeat
+    i32 u8x ,}	packet
+    f32a	{ // `tick` ""quote"" 'q'
+@calculatedFrom( ""x y""
+)
+    u32 _x `u8 x,`//x
+,	repeat char[] falsey, match msg_type as rootA {65535:  lengthOf,	}  ,}
+")).
+Eval vm_compute in ("<<<M778>>>" ++ check (runes_of_ascii "packet // trailing space 
+falsey {@lengthOf( /// triple
+i8i8
+) uint8 falsey // packet A { u8 x, }
+`two words`
+    // " ++ [128512]%N ++ runes_of_ascii " emoji
+    , @lengthOf( BodyLength )  @lengthOf(float  ) repeat MetaDataX// `tick` ""quote"" 'q'
+{ repeat char[] metadata , }
+, repeat
+    u8
+// " ++ [128512]%N ++ runes_of_ascii " emoji
+/// triple
+Logon ,
+    }
+// @lengthOf(
+// c
+packet
+    matchKey{ } // @lengthOf(
+packet u128 { /// triple
+match //
+msg_type as _x { [ ""`tick`"" ,
+    42 ]: //x
+x_y_z// 50% %s
+} , } /// triple")).
+Eval vm_compute in ("<<<M888>>>" ++ check (runes_of_ascii "MetaData
+rootA	{ // " ++ [128512]%N ++ runes_of_ascii " emoji
+T	calculatedFrom
+``
+    , x msg_type , } root packet Pad { falsey { repeat  tag
+a1 `" ++ [28040; 24687; 31867; 22411]%N ++ runes_of_ascii "`
+    , } ,@calculatedFrom( ""CRC32""  ) repeat len ,
+int16	charz @calculatedFrom( ""x y"" ) //	t
+,string matchKey
+    , zchar[3 ]
+Header `it's` , trueish
+@lengthOf(
+stringy
+), char[] metadata //	t
+@lengthOf( options1 )
+    , u roots `` ,} MetaData lengthOf
+    { float32 metadata,
+char
+body `100% of %d`
+    , // a // b
+}
+")).
+Eval vm_compute in ("<<<M3469>>>" ++ check (runes_of_ascii "options {
+    LittleEndian = false;
+    ArrayPrefixLenType = u8;
+}
+packet Reject {
+    int8 x,
+}
+packet Trade {
+    zchar[4] msgKind,
+}
+root packet Leg {
+    repeat i64 Note,
+    u8 venue,
+    @leftPad('0') char[6] Qty,
+    @rightPad('\x00') char[12] count,
+    repeat Reject,
+    repeat char[3] Px,
+    u16 lastPx,
+    u16 Acct @lengthOf(Body),
+    match lastPx as Body {
+        104 : Reject,
+        61 : Trade,
+    },
+}
+")).
+Eval vm_compute in ("<<<M1108>>>" ++ check (runes_of_ascii "packet x_y_z {
+float64	leftPad
+    @lengthOf( repeatCount
+) ,
+    match msg_type
+    //x
+    as x {
+    65535  :
+// `tick` ""quote"" 'q'
+// packet A { u8 x, }
+roots ,  4294967296 : metadata
+, } ,
+} packet float{
+u64 x_y_z // packet A { u8 x, }
+`` , char[7 ]
+    A	@lengthOf(Packet
+    // 50% %s
+    )`" ++ [233]%N ++ runes_of_ascii "` , repeat o { string MetaDataX
+`{ , }` , } ,
+@lengthOf( uint8x
+)
+    string int `it's`
+    //
+    ,  }")).
+Eval vm_compute in ("<<<M1041>>>" ++ check (runes_of_ascii "packet	trueish {	@lengthOf(
+string_ ) // " ++ [27880; 37322]%N ++ runes_of_ascii "
+@leftPad (' ' ) @tag(
+255 )
+    a1 T  `u8 x,` ,i64 chars `tab	here`, } options { falsey =
+i8// trailing space 
+;
+metadata = 007
+    ;	_x = char[ 0123456789	] i8i8
+    = u16; Z9_=""// no comment""
+    ; }
+// `tick` ""quote"" 'q'
+// " ++ [128512]%N ++ runes_of_ascii " emoji
+root	packet x_y_z
+{ zchar[ 255 ] roots @calculatedFrom(""a	b"" ) `u8 x,`
+    ,
+@tag( 42 ) options1 a1 // c
+, }")).
+Eval vm_compute in ("<<<M3822>>>" ++ check (runes_of_ascii "packet falsey {
+    @lengthOf(i8i8)
+    uint8 falsey `two words`,
+    @lengthOf(BodyLength)
+    @lengthOf(float)
+    repeat MetaDataX {
+        repeat char[] metadata,
+    },
+    repeat u8 Logon,
+}
+
+// @lengthOf(
+// c
+packet matchKey {
+}// @lengthOf(
+
+packet u128 {
+    /// triple
+    match msg_type as _x {
+        [""`tick`"", 42] : x_y_z,
+        // 50% %s
+    },
+}/// triple")).
+Eval vm_compute in ("<<<M4240>>>" ++ check (runes_of_ascii "packet
+	falsey
+
+    {
+@calculatedFrom(  ""\n"" 
+) pack T
+
+    `
+`
+
+    ,
+@rightPad 	 /// triple
+(
+
+    )
+	char[]
+	string_
+
+/// triple
+      // " ++ [128512]%N ++ runes_of_ascii " emoji
+,
+    //
+    	} 
+MetaData	string_ { u16
+trueish 
+, float 
+x_y_z
+	`u8 x,` , zchar[
+	65535 ]
+
+    float ,
+	lengthOf
+repeatCount 
+`tab	here` ,
+metadata  // trailing space 
+
+chars  `say ""hi""`
+    ,}
+
+")).
+Eval vm_compute in ("<<<M3701>>>" ++ check (runes_of_ascii "  packet
+rootA{ @leftPad
+
+    ( )
+
+@calculatedFrom(
+	""" ++ [28040; 24687]%N ++ runes_of_ascii """)
+@lengthOf(	T )
+    rootA
+
+,
+	@tag( 
+10
+
+    )
+// `tick` ""quote"" 'q'
+	// packet A { u8 x, }
+f64 i64_ @lengthOf(
+	uint8x 	 // packet A { u8 x, }
+
+),
+
+}
+packet
+
+chars
+	{repeat	int16 MetaDataX
+    ,@rightPad (//
+' '  )
+	int16 // a // b
+	  crc
+	@lengthOf( leftPad 
+),
+
+    }")).
+Eval vm_compute in ("<<<M371>>>" ++ check (runes_of_ascii "// `tick` ""quote"" 'q'
+options  { rootA	= false // @lengthOf(
+_x = ""packet"" packetx
+= zchar[7// packet A { u8 x, }
+] ;} packet	a1 { @rightPad	( ' ' )
+    u64 As ,
+    string u,
+char
+    roots @calculatedFrom(// a // b
+"""" )// a // b
+, @calculatedFrom( """" // `tick` ""quote"" 'q'
+)
+string o ,} packet Header
+    // " ++ [27880; 37322]%N ++ runes_of_ascii "
+    { }
+")).
+Eval vm_compute in ("<<<M1250>>>" ++ check (runes_of_ascii "
+packet crc
+    {
+    match asx
+as tag { 1
+:u8x , [ 4294967296,""CRC32""
+, 65535 , ""x y"" , 00	]
+: calculatedFrom , ""a\\"" :
+    packetx ,
+} ,
+    metadata @calculatedFrom( // packet A { u8 x, }
+""" ++ [28040; 24687]%N ++ runes_of_ascii """ )	`` , string
+    string_@calculatedFrom(
+""a	b""
+) ,
+    } packet
+options1{  char[] MetaDataX	@lengthOf( roots	) , }")).
+Eval vm_compute in ("<<<M3939>>>" ++ check (runes_of_ascii "packet f32a {
+    // trailing space 
+}
+
+packet As {
+    string roots @calculatedFrom(""a\""b""),
+    repeat leftPad {
+        int32 As,// " ++ [27880; 37322]%N ++ runes_of_ascii "
+    },
+    Logon int `crlf
+    line`,
+    @leftPad('\x00')
+    @tag(65535)
+    @calculatedFrom(""a	b"")
+    u32 f32a @calculatedFrom(""packet"") `u8 x,`,
+}/// triple")).
+Eval vm_compute in ("<<<M3420>>>" ++ check (runes_of_ascii "packet A {
+    u8 a,
+}
+packet B {
+    u16 b,
+}
+packet C {
+    u32 c,
+}
+root packet M {
+    u16 Kc, u16 Kb, u16 Ka,
+    match Kc as X {
+        9 : A,
+        10 : B,
+    },
+    match Kb as Y {
+        2 : C,
+        1 : A,
+    },
+    match Ka as Z {
+        1 : B,
+    },
+    A, B, C,
+}
+")).
+Eval vm_compute in ("<<<M1587>>>" ++ check (runes_of_ascii "// 50% %s
+packet	a1
+    { zchar[
+// a // b
+// 50% %s
+007]
+T `it's`
+    ,@rightPad
+    // a // b
+    (
+'\x00')
+    o repeatCount repeatCount , }  packet Logon {  }packet	Logon //x
+{ repeat // " ++ [128512]%N ++ runes_of_ascii " emoji
+uint16 u128
+    //
+    `a\`,
+falsey
+@calculatedFrom(""packet"" ) ,
+    } 	 ")).
+Eval vm_compute in ("<<<M39>>>" ++ check (runes_of_ascii "// `tick` ""quote"" 'q'
+MetaData
+    pack {
+string MetaDataX , //
+zchar[ 65535
+] i8i8, pack rootA	`a\` ,
+    string_ Header `it's` ,
+int64
+string_ ,
+/// triple
+//	t
+char[]
+packetx
+,	} options
+    { trueish
+= ' '
+; i64_ =
+i16 pack = u16
+;
+len =false }	MetaData i64_{ }")).
+Eval vm_compute in ("<<<M1527>>>" ++ check (runes_of_ascii "// 50% %s
+packet	a1
+    { { zchar[
+// a // b
+// 50% %s
+007]
+T `it's`
+    ,@rightPad
+    // a // b
+    (
+'\x00')
+    o repeatCount , }  packet Logon {  }packet	Logon //x
+{ repeat // " ++ [128512]%N ++ runes_of_ascii " emoji
+uint16 u128
+    //
+    `a\`,
+falsey
+@calculatedFrom(""packet"" ) ,
+    } 	 ")).
+Eval vm_compute in ("<<<M1697>>>" ++ check (runes_of_ascii "// 50% %s
+packet	a1
+    { zchar[
+// a // b
+// 50% %s
+007]
+T `it's`
+    ,@rightPad
+    // a // b
+    (
+'\x00')
+    o repeatCount , }  packet Logon {  }packet	Logon //x
+{ repeat // " ++ [128512]%N ++ runes_of_ascii " emoji
+uint16 u128
+    //
+    `a\`,
+falsey
+@calculatedFrom(""/packet"" ) ,
+    } 	 ")).
+Eval vm_compute in ("<<<M1638>>>" ++ check (runes_of_ascii "// 50% %s
+packet	a1
+    { zchar[
+// a // b
+// 50% %s
+007]
+T `it's`
+    ,@rightPad
+    // a // b
+    (
+'\x00')
+    o repeatCount , }  packet Logon {  }packet	Logon //x
+{ uint16 // " ++ [128512]%N ++ runes_of_ascii " emoji
+repeat u128
+    //
+    `a\`,
+falsey
+@calculatedFrom(""packet"" ) ,
+    } 	 ")).
+Eval vm_compute in ("<<<M3490>>>" ++ check (runes_of_ascii "
+
+  packet
+Sub
+    {u8
+
+a ,
+
+u16
+    SubSum
+	@calculatedFrom(
+""CRC16""
+	)  ,
+
+    } root packet Frame
+
+{u16
+
+MsgType,
+    u16
+
+BodyLen  @lengthOf(
+
+Body
+
+    ) , Sub
+	Body
+    , 
+string
+	note
+,
+
+u16
+Checksum	@calculatedFrom(
+""CRC16""
+),
+u8
+    tail ,
+}
+
+")).
+Eval vm_compute in ("<<<M1551>>>" ++ check (runes_of_ascii "// 50% %s
+packet	a1
+    { zchar[
+// a // b
+// 50% %s
+007]
+T 
+    ,@rightPad
+    // a // b
+    (
+'\x00')
+    o repeatCount , }  packet Logon {  }packet	Logon //x
+{ repeat // " ++ [128512]%N ++ runes_of_ascii " emoji
+uint16 u128
+    //
+    `a\`,
+falsey
+@calculatedFrom(""packet"" ) ,
+    } 	 ")).
+Eval vm_compute in ("<<<M293>>>" ++ check (runes_of_ascii "packet Header  { u128 @calculatedFrom(// c
+""""  )
+    // " ++ [128512]%N ++ runes_of_ascii " emoji
+    ,
+    @rightPad( ) // a // b
+zchar charz	, } packet packetx
+    //
+    {@calculatedFrom( ""{,}"" )
+    string
+asx	, f32
+// " ++ [27880; 37322]%N ++ runes_of_ascii "
+// trailing space 
+trueish
+    @lengthOf( trueish ) ,} 	 ")).
+Eval vm_compute in ("<<<M451>>>" ++ check (runes_of_ascii "MetaData Header {// trailing space 
+char[ 3]
+    Logon ,
+falsey options1 ,char[]
+f32a ,
+// `tick` ""quote"" 'q'
+// " ++ [27880; 37322]%N ++ runes_of_ascii "
+chars
+Z9_
+// " ++ [27880; 37322]%N ++ runes_of_ascii "
+// packet A { u8 x, }
+, int16 zchar `
+` ,} MetaData i64_ { }
+    // " ++ [27880; 37322]%N ++ runes_of_ascii "
+    packet
+    // " ++ [128512]%N ++ runes_of_ascii " emoji
+    _x {}
+")).
+Eval vm_compute in ("<<<M3843>>>" ++ check (runes_of_ascii "options 
+{ falsey 
+
+    //	t
+// packet A { u8 x, }
+=
+    ""a	b""	T 
+=  // c
+	  true 
+} 
 options {
-    charz = true
-    metadata = char[];
-    Packet = true
+
+    u8x
+
+= false
+
+; float =
+
+    char[]/// triple
+;
+    Header
+
+=  true
+
+    msg_type  =
+    int8
+; tag
+    =
+	3  ;// " ++ [128512]%N ++ runes_of_ascii " emoji
+}")).
+Eval vm_compute in ("<<<M3661>>>" ++ check (runes_of_ascii "
+
+  root
+    packet 	 //x
+  len {stringy
+
+@calculatedFrom( ""\n""
+) `line1
+line2`
+//
+    // c
+
+,
+i32
+    As 
+`" ++ [233]%N ++ runes_of_ascii "`, @calculatedFrom( 
+""\" ++ [233]%N ++ runes_of_ascii """
+	)
+    repeat 
+uint64
+tag
+	, repeat  i32  // `tick` ""quote"" 'q'
+    	pack	, }  // c")).
+Eval vm_compute in ("<<<M3393>>>" ++ check (runes_of_ascii "// top
+root // c0a
+  // c0b
+packet // c1a
+  // c1b
+P
+    // c2
+{ // c3a
+  // c3b
+u16 a
+    // c5
+,
+    // c6
+u32 // c7
+Sum // c8a
+  // c8b
+@calculatedFrom( ""CRC32"" // c10a
+  // c10b
+)
+    // c11
+, // c12
+} // c13
+")).
+Eval vm_compute in ("<<<M3524>>>" ++ check (runes_of_ascii "packet A {
+    match k as n {
+        ""\
+                "" : B,
+        [""\
+                "", 1] : C,
+        [
+            1, 2, 3, 4, 5,
+            ""\
+                        ""
+        ] : D,
+    },
+}")).
+Eval vm_compute in ("<<<M4462>>>" ++ check (runes_of_ascii "// 50% %s
+packet a1 {
+    zchar[007] T `it's`,
+    @rightPad('\x00')
+    o repeatCount,
 }
 
 packet Logon {
-    @calculatedFrom(""" ++ [128512]%N ++ runes_of_ascii """)
-    repeat packetx rootA,
+}
+
+packet Logon {
+    repeat uint16 u128 `a\`,
+    falsey @calculatedFrom(""/packet""),
 }")).
-Eval vm_compute in ("<<<M2053>>>" ++ check (runes_of_ascii "
-packet Frame {
-
-u8  HK
-
-    ,	u8
-
-    BK
-    , u8 
-TK	,	match HK
-as
-    Hdr
-
-    {1  :HdrA, 2 :
-	HdrB	, 
-} ,
-match BK  as
-Body 
-{
-	1: 
-BodyA	, 2
-:BodyB
-    , }
-	,match
-    TK
-	as	Trl{
-
-    1 : TrlA ,
-
-    } , } packet HdrA 
-{
-	u8
-
-a , } 
-packet HdrB {	u16	b	,
-} packet
-    BodyA {
-	u32 c
-,
-}
-packet
-BodyB
-
-{
-u64 
-d
-    ,  }
-
-    packet TrlA{
-
-    u8 e ,
-}
-    root packet
-
-    Msg 
-{Frame
-
-,
-u8
-	x
-
-, 
-}
-")).
-Eval vm_compute in ("<<<M98>>>" ++ check (runes_of_ascii "packet// a // b
-stringy  {
-    Logon { match
-    string_ as
-    i64_
-{ ""x y"":
-string_
-    ,
-// " ++ [27880; 37322]%N ++ runes_of_ascii "
-// `tick` ""quote"" 'q'
-""`tick`"" : string_
-,  1// " ++ [27880; 37322]%N ++ runes_of_ascii "
-:
-/// triple
-// c
-float , [ ""1""
-    ] :
-options1
-    // " ++ [27880; 37322]%N ++ runes_of_ascii "
-    ,} , zchar[1 ] crc@calculatedFrom( """") `two words` , f32a , float32 lengthOf ,
-}
-, @tag(255) u8x @calculatedFrom( // packet A { u8 x, }
-""abc""
-) `a\` , }
-")).
-Eval vm_compute in ("<<<M347>>>" ++ check (runes_of_ascii "packet  f32a { }packet
-metadata
-{
-@calculatedFrom(
-""\" ++ [233]%N ++ runes_of_ascii """
-) repeat _x { string
-    // a // b
-    falsey , } ,
-@calculatedFrom( ""it's"" ) As leftPad `a\`
-,	@calculatedFrom( ""abc""
-) char[ //	t
-0 ]roots	,  @tag(
-    00 )match Pad as	roots
-{ 10 :x_y_z , 00 :  len [ ""// no comment""	]// a // b
-:  T }
-    , a1 Header `" ++ [233]%N ++ runes_of_ascii "`
-, // " ++ [27880; 37322]%N ++ runes_of_ascii "
-}")).
-Eval vm_compute in ("<<<M305>>>" ++ check (runes_of_ascii "options
-{
-}
-root
-    // a // b
-    packet x //	t
-{ match
-    len as x{ [	7 , 42 ,	007 , //x
-255 // trailing space 
-, ""// no comment""
-// `tick` ""quote"" 'q'
-// " ++ [128512]%N ++ runes_of_ascii " emoji
-]:x_y_z, ""`tick`"" : u128
-, 3 : string_
-    /// triple
-    ,
-[	""CRC32""  ] : trueish ,4294967296 :Foo ,
-[ 0 ]
-: lengthOf } , }")).
-Eval vm_compute in ("<<<M496>>>" ++ check (runes_of_ascii "root packet tag float64 }  packet MetaDataX{char[007	]
-// c
-/// triple
-asx  @calculatedFrom( ""a\""b""
-) `say ""hi""`// " ++ [27880; 37322]%N ++ runes_of_ascii "
-,  @tag(4294967296 )
-    char[1//x
-] packetx @calculatedFrom(""a\""b""
-    ) ,
-// " ++ [128512]%N ++ runes_of_ascii " emoji
-// a // b
-@calculatedFrom(""" ++ [233]%N ++ runes_of_ascii "t" ++ [233]%N ++ runes_of_ascii """  ) repeat pack // " ++ [27880; 37322]%N ++ runes_of_ascii "
-,
-    } // c")).
-Eval vm_compute in ("<<<M514>>>" ++ check (runes_of_ascii "root packet tag { }  packet MetaDataX{ {char[007	]
-// c
-/// triple
-asx  @calculatedFrom( ""a\""b""
-) `say ""hi""`// " ++ [27880; 37322]%N ++ runes_of_ascii "
-,  @tag(4294967296 )
-    char[1//x
-] packetx @calculatedFrom(""a\""b""
-    ) ,
-// " ++ [128512]%N ++ runes_of_ascii " emoji
-// a // b
-@calculatedFrom(""" ++ [233]%N ++ runes_of_ascii "t" ++ [233]%N ++ runes_of_ascii """  ) repeat pack // " ++ [27880; 37322]%N ++ runes_of_ascii "
-,
-    } // c")).
-Eval vm_compute in ("<<<M660>>>" ++ check (runes_of_ascii "root packet tag { }  packet MetaDataX{char[007	]
-// c
-/// triple
-asx  @calculatedFrom( ""a\""b""
-) `say ""h$i""`// " ++ [27880; 37322]%N ++ runes_of_ascii "
-,  @tag(4294967296 )
-    char[1//x
-] packetx @calculatedFrom(""a\""b""
-    ) ,
-// " ++ [128512]%N ++ runes_of_ascii " emoji
-// a // b
-@calculatedFrom(""" ++ [233]%N ++ runes_of_ascii "t" ++ [233]%N ++ runes_of_ascii """  ) repeat pack // " ++ [27880; 37322]%N ++ runes_of_ascii "
-,
-    } // c")).
-Eval vm_compute in ("<<<M610>>>" ++ check (runes_of_ascii "root packet tag { }  packet MetaDataX{char[007	]
-// c
-/// triple
-asx  @calculatedFrom( ""a\""b""
-) `say ""hi""`// " ++ [27880; 37322]%N ++ runes_of_ascii "
-,  @tag(4294967296 )
-    char[1//x
-] packetx @calculatedFrom(""a\""b""
-    , )
-// " ++ [128512]%N ++ runes_of_ascii " emoji
-// a // b
-@calculatedFrom(""" ++ [233]%N ++ runes_of_ascii "t" ++ [233]%N ++ runes_of_ascii """  ) repeat pack // " ++ [27880; 37322]%N ++ runes_of_ascii "
-,
-    } // c")).
-Eval vm_compute in ("<<<M1993>>>" ++ check (runes_of_ascii "  // top
-	  packet// c0
-  o	// c1
-
-{ // c2
-  repeat 	 // c3
-  Logon  // c4
-
-  uint8x// c5
-	  ,// c6
-
-  }  // c7
-    	options // c8
-	  {	// c9
-      asx	// c10
-	= 	 // c11
-
-zchar[	// c12
-3// c13
-]// c14
-stringy 	 // c15
-
-=  // c16
-  '\x00' // c17
-  	}  // c18
-")).
-Eval vm_compute in ("<<<M553>>>" ++ check (runes_of_ascii "root packet tag { }  packet MetaDataX{char[007	]
-// c
-/// triple
-asx  @calculatedFrom( ""a\""b""
-) // " ++ [27880; 37322]%N ++ runes_of_ascii "
-,  @tag(4294967296 )
-    char[1//x
-] packetx @calculatedFrom(""a\""b""
-    ) ,
-// " ++ [128512]%N ++ runes_of_ascii " emoji
-// a // b
-@calculatedFrom(""" ++ [233]%N ++ runes_of_ascii "t" ++ [233]%N ++ runes_of_ascii """  ) repeat pack // " ++ [27880; 37322]%N ++ runes_of_ascii "
-,
-    } // c")).
-Eval vm_compute in ("<<<M632>>>" ++ check (runes_of_ascii "root packet tag { }  packet MetaDataX{char[007	]
-// c
-/// triple
-asx  @calculatedFrom( ""a\""b""
-) `say ""hi""`// " ++ [27880; 37322]%N ++ runes_of_ascii "
-,  @tag(4294967296 )
-    char[1//x
-] packetx @calculatedFrom(""a\""b""
-    ) ,
-// " ++ [128512]%N ++ runes_of_ascii " emoji
-// a // b
-@calculatedFrom(""" ++ [233]%N ++ runes_of_ascii "t" ++ [233]%N ++ runes_of_ascii """")).
-Eval vm_compute in ("<<<M1865>>>" ++ check (runes_of_ascii "
-
-  MetaData
-
-lengthOf {char[  0123456789
-
-]  calculatedFrom
-, char[
-    0
-
-    ]
-options1	,} MetaData
-repeatCount
-
-{ // packet A { u8 x, }
-  	u64
-	len ,
-
-stringy
-	x_y_z 
-`it's`// a // b
-  ,f32
-    As , }
-")).
-Eval vm_compute in ("<<<M622>>>" ++ check (runes_of_ascii "root packet tag { }  packet MetaDataX{char[007	]
-// c
-/// triple
-asx  @calculatedFrom( ""a\""b""
-) `say ""hi""`// " ++ [27880; 37322]%N ++ runes_of_ascii "
-,  @tag(4294967296 )
-    char[1//x
-] packetx @calculatedFrom(""a\""b""
-    ) ,")).
-Eval vm_compute in ("<<<M470>>>" ++ check (runes_of_ascii "packet
-    // `tick` ""quote"" 'q'
-    crc
-// packet A { u8 x, }
-//	t
-{
-u32 a1 ,
-    // trailing space 
-    roots
-charz //
-`two words`,	}
-    MetaData int {
-} /// triple@leftpad")).
-Eval vm_compute in ("<<<M417>>>" ++ check (runes_of_ascii "packet
-    // `tick` ""quote"" 'q'
-    crc
-// packet A { u8 x, }
-//	t
-{
-u32 a1 ,
-    // trailing space 
-    float32
-charz //
-`two words`,	}
-    MetaData int {
-} /// triple")).
-Eval vm_compute in ("<<<M387>>>" ++ check (runes_of_ascii "crc
-    // `tick` ""quote"" 'q'
-    packet
-// packet A { u8 x, }
-//	t
-{
-u32 a1 ,
-    // trailing space 
-    roots
-charz //
-`two words`,	}
-    MetaData int {
-} /// triple")).
-Eval vm_compute in ("<<<M394>>>" ++ check (runes_of_ascii "packet
-    // `tick` ""quote"" 'q'
-    crc
-// packet A { u8 x, }
-//	t
-
-u32 a1 ,
-    // trailing space 
-    roots
-charz //
-`two words`,	}
-    MetaData int {
-} /// triple")).
-Eval vm_compute in ("<<<M2074>>>" ++ check (runes_of_ascii "packet A {
-    match k as n {
-        [
-            1, ""bb"", 007, ""d"", 5,
-            ""f"", 7, ""h"", 9, ""j"",
-            11, ""l""
-        ] : B,
-        2 : C,
-    },
-}")).
-Eval vm_compute in ("<<<M457>>>" ++ check (runes_of_ascii "packet
-    // `tick` ""quote"" 'q'
-    crc
-// packet A { u8 x, }
-//	t
-{
-u32 a1 ,
-    // trailing space 
-    roots
-charz //
-`two words`,	}
-    MetaData int {")).
-Eval vm_compute in ("<<<M1483>>>" ++ check (runes_of_ascii "root packet // c1
-P
-    // c2
-{
-    // c3
-repeat // c4
-string ss // c6
-,
-    // c7
-repeat // c8
-u16
-    // c9
-ns
-    // c10
-, // c11
-}
-    // c12
-")).
-Eval vm_compute in ("<<<M210>>>" ++ check (runes_of_ascii "packet
-i64_
-{ f64 float,@tag( 0 ) @lengthOf(u )
-    float64 _x  @calculatedFrom(
-    ""x y"" )
-,}
-MetaData matchKey {
-} packet roots { }")).
-Eval vm_compute in ("<<<M2116>>>" ++ check (runes_of_ascii "packet A {
-    match k as n {
-        [
-            ""a"", 22, ""c c"", 4, ""e"",
-            66
-        ] : B,
-        2 : C,
-    },
-}")).
-Eval vm_compute in ("<<<M1228>>>" ++ check (runes_of_ascii "root packet matchKey
-// c
-{ zchar[ 3 ] pack @calculatedFrom( ""a	b"" ) `doc` , } options { } MetaData A { int8 msg_type , }")).
-Eval vm_compute in ("<<<M1260>>>" ++ check (runes_of_ascii "root packet matchKey { zchar[ 3 ] pack @calculatedFrom( ""a	b"" ) `doc` , } options { } MetaData A
-// c
-{ int8 msg_type , }")).
-Eval vm_compute in ("<<<M307>>>" ++ check (runes_of_ascii "
-packet Logon // " ++ [27880; 37322]%N ++ runes_of_ascii "
-{f32 _x
-,} MetaData u8x {float32 leftPad, tag
-    leftPad `say ""hi""`
-    ,i16 tag `say ""hi""`,}
-")).
-Eval vm_compute in ("<<<M257>>>" ++ check (runes_of_ascii "options
-{ u // a // b
-=42 x_y_z
-    =' ' ;msg_type =
-    true ; u
-=10 ;  } options { zchar =
-uint8
-;  } // c")).
-Eval vm_compute in ("<<<M1589>>>" ++ check (runes_of_ascii "packet	o
-
-    {
-	repeat 
-Logon uint8x,
-} 
-options {  asx
-
-// c
-=	zchar[
-
-    3
-]  stringy =
-'\x00'}
-")).
-Eval vm_compute in ("<<<M921>>>" ++ check (runes_of_ascii "packet A {
+Eval vm_compute in ("<<<M3786>>>" ++ check (runes_of_ascii "packet A {
     Inner {
-        u8 x `a
-b`,
-        Deep {
-            u8 y `a
-b`,
+        match k as n {
+            [
+                1, 22, 007, 4, 5,
+                66, 7, 8, 9, 10,
+                11
+            ] : B,
         },
     },
 }")).
-Eval vm_compute in ("<<<M951>>>" ++ check (runes_of_ascii "packet A {
+Eval vm_compute in ("<<<M4025>>>" ++ check (runes_of_ascii "
+
+  options
+
+{
+	options1
+	= 
+        // packet A { u8 x, }
+
+float64  leftPad
+
+    =
+    true  ;
+MetaDataX
+	=
+    char[  00	]
+
+; 
+roots 
+=	false }packet
+
+string_ {
+
+    }
+")).
+Eval vm_compute in ("<<<M3403>>>" ++ check (runes_of_ascii "root packet
+    // c1
+P // c2
+{ u8 // c4a
+  // c4b
+s_u8
+    // c5
+, // c6
+repeat u8 // c8
+r_u8 // c9a
+  // c9b
+,
+    // c10
+u16
+    // c11
+b_len // c12a
+  // c12b
+, } ")).
+Eval vm_compute in ("<<<M3766>>>" ++ check (runes_of_ascii "// " ++ [27880; 37322]%N ++ runes_of_ascii "
+packet rootA {
+    string Pad `{ , }`,
+}
+
+root packet repeatCount {
+    @lengthOf(Header)
+    int64 As `{ , }`,
+}
+
+options {
+    charz = false
+}/// triple")).
+Eval vm_compute in ("<<<M679>>>" ++ check (runes_of_ascii "packet charz{ @tag( 7
+)@tag( //	t
+4294967296)
+    @lengthOf( trueish )
+    repeat uint64 metadata `line1
+line2` , } options{ T=true;
+    } packet tag {}")).
+Eval vm_compute in ("<<<M2166>>>" ++ check (runes_of_ascii "MetaData BodyLength
+{ int8 Foo
+, string
+    MetaDataX , float zchar ,pack options1
+,asx string_, }
+packet u8x {Foo@lengthOf(charz charz )
+`" ++ [28040; 24687; 31867; 22411]%N ++ runes_of_ascii "`,  }
+")).
+Eval vm_compute in ("<<<M2086>>>" ++ check (runes_of_ascii "MetaData BodyLength
+{ int8 Foo
+, string
+    MetaDataX , , float zchar ,pack options1
+,asx string_, }
+packet u8x {Foo@lengthOf(charz )
+`" ++ [28040; 24687; 31867; 22411]%N ++ runes_of_ascii "`,  }
+")).
+Eval vm_compute in ("<<<M2194>>>" ++ check (runes_of_ascii "MetaData BodyLength
+{ int8 Foo
+, string
+    MetaDataX , float zchar? ,pack options1
+,asx string_, }
+packet u8x {Foo@lengthOf(charz )
+`" ++ [28040; 24687; 31867; 22411]%N ++ runes_of_ascii "`,  }
+")).
+Eval vm_compute in ("<<<M2122>>>" ++ check (runes_of_ascii "MetaData BodyLength
+{ int8 Foo
+, string
+    MetaDataX , float zchar ,pack options1
+,string_ asx, }
+packet u8x {Foo@lengthOf(charz )
+`" ++ [28040; 24687; 31867; 22411]%N ++ runes_of_ascii "`,  }
+")).
+Eval vm_compute in ("<<<M2143>>>" ++ check (runes_of_ascii "MetaData BodyLength
+{ int8 Foo
+, string
+    MetaDataX , float zchar ,pack options1
+,asx string_, }
+uint8 u8x {Foo@lengthOf(charz )
+`" ++ [28040; 24687; 31867; 22411]%N ++ runes_of_ascii "`,  }
+")).
+Eval vm_compute in ("<<<M1967>>>" ++ check (runes_of_ascii "
+packet leftPad {
+@leftPad( '0')
+u32
+i64_ i64_ `100% of %d` ,repeat// 50% %s
+i8 chars
+    ,
+} MetaData
+    f32a
+{ // packet A { u8 x, }
+}")).
+Eval vm_compute in ("<<<M2306>>>" ++ check (runes_of_ascii "options
+    {
+x_y_z// " ++ [27880; 37322]%N ++ runes_of_ascii "
+= 10 ; }
+packet body {
+    @calculatedFrom(
+// trailing space 
+// " ++ [27880; 37322]%N ++ runes_of_ascii "
+""1""
+)	match T as Foo
+    {
+255 char T , }
+,}")).
+Eval vm_compute in ("<<<M1977>>>" ++ check (runes_of_ascii "
+packet leftPad {
+@leftPad( '0')
+u32
+i64_ `100% of %d` , ,repeat// 50% %s
+i8 chars
+    ,
+} MetaData
+    f32a
+{ // packet A { u8 x, }
+}")).
+Eval vm_compute in ("<<<M2342>>>" ++ check (runes_of_ascii "options
+    {
+x_y_z// " ++ [27880; 37322]%N ++ runes_of_ascii "
+= 10 ; }
+packet body {
+@x    @calculatedFrom(
+// trailing space 
+// " ++ [27880; 37322]%N ++ runes_of_ascii "
+""1""
+)	match T as Foo
+    {
+255 :T , }
+,}")).
+Eval vm_compute in ("<<<M1938>>>" ++ check (runes_of_ascii "
+packet leftPad @leftPad
+{( '0')
+u32
+i64_ `100% of %d` ,repeat// 50% %s
+i8 chars
+    ,
+} MetaData
+    f32a
+{ // packet A { u8 x, }
+}")).
+Eval vm_compute in ("<<<M2245>>>" ++ check (runes_of_ascii "options
+    {
+x_y_z// " ++ [27880; 37322]%N ++ runes_of_ascii "
+= 10 ; }
+body packet {
+    @calculatedFrom(
+// trailing space 
+// " ++ [27880; 37322]%N ++ runes_of_ascii "
+""1""
+)	match T as Foo
+    {
+255 :T , }
+,}")).
+Eval vm_compute in ("<<<M2016>>>" ++ check (runes_of_ascii "
+packet leftPad {
+@leftPad( '0')
+u32
+i64_ `100% of %d` ,repeat// 50% %s
+i8 chars
+    ,
+} MetaData
+    f32a
+ // packet A { u8 x, }
+}")).
+Eval vm_compute in ("<<<M1986>>>" ++ check (runes_of_ascii "
+packet leftPad {
+@leftPad( '0')
+u32
+i64_ `100% of %d` ,repeat// 50% %s
+ chars
+    ,
+} MetaData
+    f32a
+{ // packet A { u8 x, }
+}")).
+Eval vm_compute in ("<<<M2273>>>" ++ check (runes_of_ascii "options
+    {
+x_y_z// " ++ [27880; 37322]%N ++ runes_of_ascii "
+= 10 ; }
+packet body {
+    @calculatedFrom(
+// trailing space 
+// " ++ [27880; 37322]%N ++ runes_of_ascii "
+""1""
+)	 T as Foo
+    {
+255 :T , }
+,}")).
+Eval vm_compute in ("<<<M2210>>>" ++ check (runes_of_ascii "
+    {
+x_y_z// " ++ [27880; 37322]%N ++ runes_of_ascii "
+= 10 ; }
+packet body {
+    @calculatedFrom(
+// trailing space 
+// " ++ [27880; 37322]%N ++ runes_of_ascii "
+""1""
+)	match T as Foo
+    {
+255 :T , }
+,}")).
+Eval vm_compute in ("<<<M1009>>>" ++ check (runes_of_ascii "packet msg_type { uint16 T// a // b
+@lengthOf( i8i8 )
+, repeat	i32  int
+    ,
+@lengthOf(x_y_z
+    ) int64
+    As
+    ,
+    }
+")).
+Eval vm_compute in ("<<<M3376>>>" ++ check (runes_of_ascii "packet B {
+    u8 a,
+}
+root packet P {
+    u8 K,
+    match K as Body {
+        1 : B,
+    },
+    u16 L @lengthOf(Body),
+}
+")).
+Eval vm_compute in ("<<<M4270>>>" ++ check (runes_of_ascii "MetaData crc {
+    char[] packetx,
+}
+
+MetaData f32a {
+    string o `
+    `,
+}
+
+packet Packet {
+    repeat i8i8 i64_,
+}")).
+Eval vm_compute in ("<<<M1918>>>" ++ check (runes_of_ascii "packet o {
+    roots `it's`
+// trailing space 
+//x
+, char[ 42
+    ]  A, // " ++ [27880; 37322]%N ++ runes_of_ascii "
+f64
+\ repeatCount
+    `crlf
+line`
+,}")).
+Eval vm_compute in ("<<<M1835>>>" ++ check (runes_of_ascii "packet { o
+    roots `it's`
+// trailing space 
+//x
+, char[ 42
+    ]  A, // " ++ [27880; 37322]%N ++ runes_of_ascii "
+f64
+repeatCount
+    `crlf
+line`
+,}")).
+Eval vm_compute in ("<<<M2425>>>" ++ check (runes_of_ascii "MetaData
+    calculatedFrom
+{ zchar[  10 ]
+    As`tab	here`,
+    }// trailing space 
+options  { roots ='\x00' ; }")).
+Eval vm_compute in ("<<<M2159>>>" ++ check (runes_of_ascii "MetaData BodyLength
+{ int8 Foo
+, string
+    MetaDataX , float zchar ,pack options1
+,asx string_, }
+packet u8x {")).
+Eval vm_compute in ("<<<M3005>>>" ++ check (runes_of_ascii "packet A {
+  match k as n {
+    [""a"", 22, ""c c"", 4, ""e"", 66, ""g"", 8, ""i"", 10, ""k"", 12] : B,
+    2 : C
+  },
+}")).
+Eval vm_compute in ("<<<M3507>>>" ++ check (runes_of_ascii "
+
+  packet 
+
+    // @lengthOf(
+int
+{ @calculatedFrom(""a\\""
+    )
+
+    char
+calculatedFrom
+
+    ,
+}
+
+")).
+Eval vm_compute in ("<<<M2962>>>" ++ check (runes_of_ascii "packet A {
+  match k as n {
+    [""a"", ""bb"", ""c c"", ""d"", ""e"", ""f"", ""g"", ""h"", ""i""] : B,
+    2 : C
+  },
+}")).
+Eval vm_compute in ("<<<M3051>>>" ++ check (runes_of_ascii "packet A {
     Inner {
         u8 x `
 x`,
@@ -1075,134 +2523,215 @@ x`,
         },
     },
 }")).
-Eval vm_compute in ("<<<M866>>>" ++ check (runes_of_ascii "packet A {
+Eval vm_compute in ("<<<M2950>>>" ++ check (runes_of_ascii "packet A {
   match k as n {
-    [""a"", 22, ""c c"", 4, ""e"", 66, ""g"", 8, ""i""] : B,
+    [""a"", ""bb"", ""c c"", ""d"", ""e"", ""f"", ""g"", ""h""] : B
     2 : C
   },
 }")).
-Eval vm_compute in ("<<<M1449>>>" ++ check (runes_of_ascii "packet Inner
-
-{u8
-
-a , }	root packet
-	P
-	{ repeat
-
-    Inner items , u8
-    x
-
-    , 
-}")).
-Eval vm_compute in ("<<<M1187>>>" ++ check (runes_of_ascii "MetaData float { float64
-// c
-charz `
-` , } root packet chars { @rightPad ( '0' ) Foo , }")).
-Eval vm_compute in ("<<<M1398>>>" ++ check (runes_of_ascii "packet chars // c
-{ } packet MetaDataX { @tag( 42 ) i16 string_ , repeat x `say ""hi""` , }")).
-Eval vm_compute in ("<<<M1624>>>" ++ check (runes_of_ascii "packet A { match
-k as n { 
-[
-    ""a"",	22
-,""c c""
-
-    ,  4  ]: B	,	2
-
-    :	C 
-} ,  }")).
-Eval vm_compute in ("<<<M1128>>>" ++ check (runes_of_ascii "packet metadata { // c
-Logon { A `" ++ [28040; 24687; 31867; 22411]%N ++ runes_of_ascii "` , tag o , } , zchar len `// not a comment` , }")).
-Eval vm_compute in ("<<<M1377>>>" ++ check (runes_of_ascii "packet o { repeat Logon uint8x , } options { asx = zchar[ 3 ] stringy = '\x00' }
-// c
-")).
-Eval vm_compute in ("<<<M1365>>>" ++ check (runes_of_ascii "packet o { repeat Logon uint8x , } options { asx = zchar[
-// c
-3 ] stringy = '\x00' }")).
-Eval vm_compute in ("<<<M961>>>" ++ check (runes_of_ascii "packet A {
-    u32 crc @calculatedFrom(""x\
-y""),
-    @calculatedFrom(""x\
-y"") u8 y,
-}")).
-Eval vm_compute in ("<<<M1326>>>" ++ check (runes_of_ascii "MetaData body { i64 pack `it's` , } packet stringy {
-// c
-int16 calculatedFrom , }")).
-Eval vm_compute in ("<<<M911>>>" ++ check (runes_of_ascii "packet A { Inner { match k as n { [1,22,007,4,5,66,7,8,9,10,11,12] : B, }, }, }")).
-Eval vm_compute in ("<<<M63>>>" ++ check (runes_of_ascii "MetaData
-    Packet { string Logon `" ++ [233]%N ++ runes_of_ascii "`
-,
-    int8
-    _x
-//	t
-// " ++ [27880; 37322]%N ++ runes_of_ascii "
-,
-}
-
-")).
-Eval vm_compute in ("<<<M231>>>" ++ check (runes_of_ascii "MetaData/// triple
-float {	f64
-    // trailing space 
-    u8x
-`
-` ,	}")).
-Eval vm_compute in ("<<<M783>>>" ++ check (runes_of_ascii "packet A {
-  match k as n {
-    [1, 22, 007] : B
-    2 : C
-  },
-}")).
-Eval vm_compute in ("<<<M774>>>" ++ check (runes_of_ascii "packet A {
-  match k as n {
-    [1, 22] : B
-    2 : C
-  },
-}")).
-Eval vm_compute in ("<<<M1286>>>" ++ check (runes_of_ascii "packet x { @rightPad ( ) // c
-repeat roots Logon `doc` , }")).
-Eval vm_compute in ("<<<M1793>>>" ++ check (runes_of_ascii "// a
-MetaData M {
-}// b
-
-// c
-MetaData N {
-}// d
-// e")).
-Eval vm_compute in ("<<<M1695>>>" ++ check (runes_of_ascii "MetaData trueish {
-    string trueish `it's`,
-}")).
-Eval vm_compute in ("<<<M229>>>" ++ check (runes_of_ascii "packet float { }	packet
-body
-    { }
+Eval vm_compute in ("<<<M1896>>>" ++ check (runes_of_ascii "packet o {
+    roots `it's`
+// trailing space 
 //x
+, char[ 42
+    ]  A, // " ++ [27880; 37322]%N ++ runes_of_ascii "
+f64
+repeatCount")).
+Eval vm_compute in ("<<<M1229>>>" ++ check (runes_of_ascii "
+MetaData asx{
+float32 charz
+    `u8 x,` ,	}	MetaData /// triple
+tag { char[
+0 ]falsey , }
 ")).
-Eval vm_compute in ("<<<M1435>>>" ++ check (runes_of_ascii "root packet P {
-    char c,
+Eval vm_compute in ("<<<M1504>>>" ++ check (runes_of_ascii "packet
+T
+{ match repeatCount as	calculatedFrom
+{ [65535 ]	: As" ++ [65279]%N ++ runes_of_ascii "	,
+} ,}
+// trailing space 
+")).
+Eval vm_compute in ("<<<M1464>>>" ++ check (runes_of_ascii "packet
+T
+{ match repeatCount as	calculatedFrom
+{ [65535 :	] As	,
+} ,}
+// trailing space 
+")).
+Eval vm_compute in ("<<<M1482>>>" ++ check (runes_of_ascii "packet
+T
+{ match repeatCount as	calculatedFrom
+{ [65535 ]	: As	,
+ ,}
+// trailing space 
+")).
+Eval vm_compute in ("<<<M1773>>>" ++ check (runes_of_ascii "options{  lengthOf =//x
+i16;
+    BodyLength = 0 ; pack
+= MetaData;
+    A = char[ 3 ] }")).
+Eval vm_compute in ("<<<M1821>>>" ++ check (runes_of_ascii "options{  lengthOf =//x
+i16;
+    " ++ [127]%N ++ runes_of_ascii " BodyLength = 0 ; pack
+= false;
+    A = char[ 3 ] }")).
+Eval vm_compute in ("<<<M772>>>" ++ check (runes_of_ascii "packet	zchar
+{} MetaData
+    T { i64
+A ,
+    // @lengthOf(
+    i32 u
+, o Packet , }
+")).
+Eval vm_compute in ("<<<M4344>>>" ++ check (runes_of_ascii "packet leftPad {
+    @leftPad('0')
+    u32 i64_ `100% of %d`,
+    repeat i8 chars,
+}")).
+Eval vm_compute in ("<<<M2910>>>" ++ check (runes_of_ascii "packet A {
+  match k as n {
+    [""a"", ""bb"", ""c c"", ""d"", ""e""] : B,
+    2 : C
+  },
+}")).
+Eval vm_compute in ("<<<M3282>>>" ++ check (runes_of_ascii "MetaData Foo { zchar[ 0 ] matchKey , } options { lengthOf = i32 u = 00 ; }
+// c
+")).
+Eval vm_compute in ("<<<M3255>>>" ++ check (runes_of_ascii "MetaData Foo { zchar[ 0 ] // c
+matchKey , } options { lengthOf = i32 u = 00 ; }")).
+Eval vm_compute in ("<<<M1799>>>" ++ check (runes_of_ascii "options{  lengthOf =//x
+i16;
+    BodyLength = 0 ; pack
+= false;
+    A = char[")).
+Eval vm_compute in ("<<<M4249>>>" ++ check (runes_of_ascii "root packet P {
+    u16 a,
+    u32 Sum @calculatedFrom(""CR\
+        C32""),
+}")).
+Eval vm_compute in ("<<<M3702>>>" ++ check (runes_of_ascii "options {
+    u128 = zchar[3];
+    body = ""a\""b"";
+    options1 = false;
+}")).
+Eval vm_compute in ("<<<M241>>>" ++ check (runes_of_ascii "// " ++ [128512]%N ++ runes_of_ascii " emoji
+packet float {
+    zchar[
+7 ]trueish ,
+    // a // b
+    }")).
+Eval vm_compute in ("<<<M2267>>>" ++ check (runes_of_ascii "options
+    {
+x_y_z// " ++ [27880; 37322]%N ++ runes_of_ascii "
+= 10 ; }
+packet body {
+    @calculatedFrom(")).
+Eval vm_compute in ("<<<M2853>>>" ++ check (runes_of_ascii "i8 char[] match @rightPad ; root root @tag( @calculatedFrom( { '0'")).
+Eval vm_compute in ("<<<M2933>>>" ++ check (runes_of_ascii "packet A { Inner { match k as n { [1,22,007,4,5,66] : B, }, }, }")).
+Eval vm_compute in ("<<<M271>>>" ++ check (runes_of_ascii "// `tick` ""quote"" 'q'
+MetaData calculatedFrom{ Pad
+zchar
+, }
+")).
+Eval vm_compute in ("<<<M3311>>>" ++ check (runes_of_ascii "packet u8x { } MetaData crc { char[ 4294967296 ] Foo // c
+, }")).
+Eval vm_compute in ("<<<M3367>>>" ++ check (runes_of_ascii "root packet P {
+    hdr {
+        u8 a,
+    },
     u8 x,
 }
 ")).
-Eval vm_compute in ("<<<M311>>>" ++ check (runes_of_ascii "  options {
-    asx =
-    '0'
-;}
+Eval vm_compute in ("<<<M3204>>>" ++ check (runes_of_ascii "packet A { @tag(1) // a
+ @leftPad('0') // b
+ char[4] x, }")).
+Eval vm_compute in ("<<<M4071>>>" ++ check (runes_of_ascii "
+packet
+A
+	{B
+
+    {
+
+    u8
+
+    x
+,
+    } ,}
 ")).
-Eval vm_compute in ("<<<M929>>>" ++ check (runes_of_ascii "root packet A {
-    u8 x `
-`,
+Eval vm_compute in ("<<<M4226>>>" ++ check (runes_of_ascii "  options
+    { 
+u128
+    =
+
+char[]  ;
+} // a // b
+")).
+Eval vm_compute in ("<<<M3189>>>" ++ check (runes_of_ascii "packet A {} packet B {} MetaData M {} options {}")).
+Eval vm_compute in ("<<<M563>>>" ++ check (runes_of_ascii "options { }packet u128// trailing space 
+{ }
+")).
+Eval vm_compute in ("<<<M1975>>>" ++ check (runes_of_ascii "
+packet leftPad {
+@leftPad( '0')
+u32
+i64_")).
+Eval vm_compute in ("<<<M2633>>>" ++ check (runes_of_ascii "packet A { @leftPad('0' '0') char[2] x, }")).
+Eval vm_compute in ("<<<M4049>>>" ++ check (runes_of_ascii "root packet zchar {
+    f32a matchKey,
 }")).
-Eval vm_compute in ("<<<M2084>>>" ++ check (runes_of_ascii "root packet pack {
-    // c
+Eval vm_compute in ("<<<M282>>>" ++ check (runes_of_ascii "options
+    {As=""" ++ [28040; 24687]%N ++ runes_of_ascii """ ; } // @lengthOf(")).
+Eval vm_compute in ("<<<M2402>>>" ++ check (runes_of_ascii "MetaData
+Foo {Header //
+caf" ++ [233]%N ++ runes_of_ascii "_1 ,	} 	 ")).
+Eval vm_compute in ("<<<M3184>>>" ++ check (runes_of_ascii "options { a = 1 // c b = 2; // d}")).
+Eval vm_compute in ("<<<M1090>>>" ++ check (runes_of_ascii "MetaData T
+    {  char[
+1 ] o,
+}
+")).
+Eval vm_compute in ("<<<M3017>>>" ++ check (runes_of_ascii "root packet A {
+    u8 x `a
+b`,
 }")).
-Eval vm_compute in ("<<<M1168>>>" ++ check (runes_of_ascii "root packet
+Eval vm_compute in ("<<<M4401>>>" ++ check (runes_of_ascii "packet A {
+    u8 x `d" ++ [12288]%N ++ runes_of_ascii "`,// c" ++ [12288]%N ++ runes_of_ascii "
+}")).
+Eval vm_compute in ("<<<M2814>>>" ++ check (runes_of_ascii """"" 42 @rightPad i8 packet true")).
+Eval vm_compute in ("<<<M3339>>>" ++ check (runes_of_ascii "
 // c
-pack { }")).
-Eval vm_compute in ("<<<M1036>>>" ++ check (runes_of_ascii "packet A {
-}
-// c 	")).
-Eval vm_compute in ("<<<M1011>>>" ++ check (runes_of_ascii "packet A {
-}
-// c" ++ [8233]%N)).
-Eval vm_compute in ("<<<M1009>>>" ++ check (runes_of_ascii "packet A {
-}// c" ++ [8233]%N)).
-Eval vm_compute in ("<<<M1703>>>" ++ check (runes_of_ascii "options {
+options { u8x = false }")).
+Eval vm_compute in ("<<<M3349>>>" ++ check (runes_of_ascii "options { u8x = false
+// c
 }")).
-Eval vm_compute in ("<<<M1015>>>" ++ check (runes_of_ascii "// c" ++ [8239]%N)).
+Eval vm_compute in ("<<<M2232>>>" ++ check (runes_of_ascii "options
+    {
+x_y_z// " ++ [27880; 37322]%N ++ runes_of_ascii "
+=")).
+Eval vm_compute in ("<<<M4182>>>" ++ check (runes_of_ascii "options {
+    Foo = ' '
+}")).
+Eval vm_compute in ("<<<M2708>>>" ++ check (runes_of_ascii "007 : = repeat char[ u8")).
+Eval vm_compute in ("<<<M2064>>>" ++ check (runes_of_ascii "MetaData BodyLength
+{")).
+Eval vm_compute in ("<<<M286>>>" ++ check (runes_of_ascii "MetaData Packet
+{ }")).
+Eval vm_compute in ("<<<M464>>>" ++ check (runes_of_ascii "
+options
+{
+    }
+")).
+Eval vm_compute in ("<<<M3143>>>" ++ check (runes_of_ascii "// c" ++ [8287]%N ++ runes_of_ascii "
+packet A {
+}")).
+Eval vm_compute in ("<<<M2693>>>" ++ check (runes_of_ascii "// only a comment")).
+Eval vm_compute in ("<<<M2500>>>" ++ check (runes_of_ascii "@calculatedFrom(")).
+Eval vm_compute in ("<<<M2577>>>" ++ check (runes_of_ascii "packet A { x }")).
+Eval vm_compute in ("<<<M2786>>>" ++ check (runes_of_ascii " 1zQBy@:;+qy")).
+Eval vm_compute in ("<<<M2489>>>" ++ check (runes_of_ascii "@leftPad(")).
+Eval vm_compute in ("<<<M2466>>>" ++ check (runes_of_ascii "strings")).
+Eval vm_compute in ("<<<M2844>>>" ++ check (runes_of_ascii "w""Bn;m")).
+Eval vm_compute in ("<<<M3091>>>" ++ check (runes_of_ascii "// c ")).
+Eval vm_compute in ("<<<M2533>>>" ++ check (runes_of_ascii "12ab")).
+Eval vm_compute in ("<<<M2537>>>" ++ check (runes_of_ascii "1.5")).
+Eval vm_compute in ("<<<M2545>>>" ++ check (runes_of_ascii "1_")).
